@@ -4,6 +4,8 @@ import itertools
 import json as std_json
 import math
 import os
+import pathlib
+import random
 import shutil
 import tempfile
 from fractions import Fraction
@@ -17,7 +19,12 @@ RULE = ("seeded random Pauli terms/sums (int, float, complex, negative zero, 1e-
         "save_+load_ files (path and open file) / operator lists / str()->PauliTerm|PauliSum; hand-written and "
         "malformed texts and dictionaries for the parser and convert_dict_to_op; every persisted artefact "
         "(Measurements, ExpectationValues, Parities, ValueEstimate, list, layers, connectivity, ordering, nmeas) "
-        "through its save_/load_ pair by path and by open file.  non-trivial: operator case with a complex or "
+        "through its save_/load_ pair by path and by open file (also pathlib / StringIO / binary file objects); "
+        "SEQUENCES of sibling cases (near-equal / one-digit / hash-colliding coefficients, one letter, one index, one "
+        "frame, one bit ... changed) run on the same file name and, where flagged, on the same in-place mutated object, "
+        "every load repeated after overwriting the first result; large shapes (>= 64 terms / operators / shots / "
+        "elements, widths 9..16), uniform and wide-dynamic-range arrays, numpy-typed coefficients and odd array "
+        "layouts.  non-trivial: operator case with a complex or "
         "exponent-format coefficient or a constant term; artefact case with >=1 frame / non-empty payload; "
         "distinct = distinct canonical JSON of the case")
 TRUSTED = [
@@ -33,7 +40,11 @@ TRUSTED = [
     "float sums of like terms are compared on dyadic coefficients only (exact in doubles)",
 ]
 ASSUMPTIONS = [
-    "coefficients are Python int / float / complex with magnitude < 1e15 (the quantifier of the property)",
+    "coefficients are Python int / float / complex (numpy float64 / complex128 included: they are subclasses) with "
+    "magnitude < 1e15 (the quantifier of the property)",
+    "objects returned by the library belong to the caller (the harness overwrites them before it calls again); public "
+    "attributes (term.coefficient, sum.terms, values, correlations, bitstrings, precision, layers) may be assigned or "
+    "mutated in place between two save/convert/print calls",
     "arrays have at least one element (a zero-size array loses its shape through tolist(); outside the property)",
     "a path is a str (the loaders test isinstance(file, str)); load_nmeas_estimate takes a path only, by its signature",
     "the parser model is ASCII: whitespace = space,\\t,\\n,\\r,\\v,\\f; re.I is ASCII case folding; the driver's reader "
@@ -70,21 +81,35 @@ def _num(x):
     return rat(Fraction(x))
 
 
-def enc_coef(c):
-    """case-file encoding of a coefficient object (exact; keeps type and signed zeros)"""
+def enc_coef(c, npy=False):
+    """case-file encoding of a coefficient object (exact; keeps type and signed zeros); npy: the coefficient is handed
+    to the library as numpy.float64 / numpy.complex128 (subclasses of float / complex)"""
     if isinstance(c, complex):
-        return {"t": "complex", "re": c.real.hex(), "im": c.imag.hex()}
-    if isinstance(c, float):
-        return {"t": "float", "re": c.hex()}
-    return {"t": "int", "re": int(c)}
+        e = {"t": "complex", "re": float(c.real).hex(), "im": float(c.imag).hex()}
+    elif isinstance(c, float):
+        e = {"t": "float", "re": float(c).hex()}
+    else:
+        return {"t": "int", "re": int(c)}
+    if npy or type(c).__module__ == "numpy":
+        e["np"] = True
+    return e
 
 
-def dec_coef(e):
+def dec_py(e):
+    """the plain Python number of an encoded coefficient"""
     if e["t"] == "complex":
         return complex(float.fromhex(e["re"]), float.fromhex(e["im"]))
     if e["t"] == "float":
         return float.fromhex(e["re"])
     return int(e["re"])
+
+
+def dec_coef(e):
+    v = dec_py(e)
+    if e.get("np"):
+        import numpy as np
+        return np.complex128(v) if e["t"] == "complex" else np.float64(v)
+    return v
 
 
 def coef_canon(c):
@@ -132,10 +157,28 @@ def carr_canon(L, a):
 
 
 def carr_build(L, e):
-    re = L.np.array(_unnest(e["re"], e.get("int", False)))
+    """the ndarray of an encoded array; optional "dtype" (values are representable in it by construction) and
+    "layout": F = Fortran order, strided = every second element of a larger buffer, T = transposed view,
+    ro = read-only"""
+    np = L.np
+    a = np.array(_unnest(e["re"], e.get("int", False)))
     if e.get("im") is not None:
-        return re + 1j * L.np.array(_unnest(e["im"], False))
-    return re
+        a = a + 1j * np.array(_unnest(e["im"], False))
+    if e.get("dtype"):
+        a = a.astype(e["dtype"])
+    lay = e.get("layout")
+    if lay == "F":
+        a = np.asfortranarray(a)
+    elif lay == "strided" and a.ndim >= 1:
+        big = np.zeros(tuple(2 * d for d in a.shape), dtype=a.dtype)
+        sl = (slice(None, None, 2),) * a.ndim
+        big[sl] = a
+        a = big[sl]
+    elif lay == "T" and a.ndim == 2:
+        a = np.ascontiguousarray(a.T).T
+    elif lay == "ro":
+        a.setflags(write=False)
+    return a
 
 
 def _unnest(x, as_int):
@@ -199,7 +242,82 @@ def corpus():
         # fixed 4422d44: saved with the default frame_meas=None the loader used to raise KeyError
         {"kind": "nmeas", "K": "7/2", "nterms": 4, "frame_meas": None},
     ]
-    return z
+    return z + _corpus_histories()
+
+
+def _seq(*steps):
+    return {"kind": "seq", "steps": list(steps)}
+
+
+def _corpus_histories():
+    """fixed histories / shapes of the classes that plain one-shot cases cannot see (each found MISSED by an earlier
+    version of this check when the corresponding change was planted in a scratch copy of the library)"""
+    zz = [(0, "Z"), (1, "Z")]
+    npc = _t([(2, "Z")], 1 + 2j)
+    npc["coef"]["np"] = True
+    npf = _t([(0, "X"), (11, "Y")], 0.1)
+    npf["coef"]["np"] = True
+    big_meas = [[(i * 7 + j * 3 + (i * j) % 5) % 2 for j in range(4)] for i in range(70)]
+    return [
+        # a memo keyed by a tolerant == / a rounded hash: the second operator must not come back with the first one's coefficient
+        _seq({"kind": "op", "via": "file", "terms": [_t(zz, 0.5), _t([(3, "X")], 2.0)]},
+             {"kind": "op", "via": "file", "terms": [_t(zz, 0.5000002), _t([(3, "X")], 2.0000004)]},
+             {"kind": "op", "via": "file", "terms": [_t(zz, 0.5), _t([(3, "X")], 2.0)]}),
+        # hash(-1) == hash(-2)
+        _seq({"kind": "op", "via": "dict", "terms": [_t(zz, -1.0), _t([(3, "X")], -1)]},
+             {"kind": "op", "via": "dict", "terms": [_t(zz, -2.0), _t([(3, "X")], -2)]}),
+        # same file name, same file size, other content
+        _seq({"kind": "op", "via": "file", "terms": [_t(zz, 0.15838287025480557)]},
+             {"kind": "op", "via": "file", "terms": [_t(zz, 0.15838287025480555)]},
+             {"kind": "op", "via": "fileobj", "terms": [_t(zz, 0.15838287025480557)]}),
+        # the same objects, coefficient assigned between two conversions / prints (real -> complex too)
+        _seq({"kind": "op", "via": "dict", "terms": [_t(zz, 1234.5), _t([], 2)]},
+             {"kind": "op", "via": "dict", "terms": [_t(zz, complex(1234.5, 1e-05)), _t([], 3)], "inplace": True}),
+        _seq({"kind": "text", "terms": [_t(zz, 2.5)], "single": True},
+             {"kind": "text", "terms": [_t(zz, -3.5)], "single": True, "inplace": True},
+             {"kind": "text", "terms": [_t(zz, 0.75j)], "single": True, "derive": "copy"}),
+        _seq({"kind": "text", "terms": [_t(zz, 2.5), _t([(4, "Y")], 1j)]},
+             {"kind": "text", "terms": [_t(zz, 2.5), _t([(4, "Y")], 1j)], "derive": "reparse"},
+             {"kind": "text", "terms": [_t(zz, 7.25), _t([(4, "Y")], 1j)], "inplace": True}),
+        _seq({"kind": "op", "via": "json", "terms": [_t(zz, 2.5), _t([(4, "Y")], 1j)]},
+             {"kind": "op", "via": "json", "terms": [_t(zz, 2.5), _t([(4, "Y")], 1j)], "derive": "reload"},
+             {"kind": "op", "via": "json", "terms": [_t(zz, 7.25), _t([(4, "Y")], 1j)], "inplace": True}),
+        _seq({"kind": "text", "terms": [_t(zz, 2.5), _t(zz, 1.5), _t([(4, "Y")], 1j)]},
+             {"kind": "text", "terms": [_t(zz, 4.0), _t([(4, "Y")], 1j)], "derive": "simplify"},
+             {"kind": "text", "terms": [_t(zz, 4.5), _t([(4, "Y")], 2j)], "inplace": True}),
+        # artefacts: the same object changed in place and saved again under the same name
+        _seq({"kind": "ev", "via": "path", "values": {"re": [1, 2, 3], "im": None}, "correlations": [{"re": [[1, 0], [0, 1]], "im": None}], "covariances": None},
+             {"kind": "ev", "via": "path", "values": {"re": [1, 5, 3], "im": None}, "correlations": [{"re": [[1, "1/2"], ["1/2", 1]], "im": None}], "covariances": None, "inplace": True},
+             {"kind": "ev", "via": "fileobj", "values": {"re": [1, 5, 3], "im": None}, "correlations": None, "covariances": [{"re": [[1, "1/2"], ["1/2", 1]], "im": None}], "derive": "reload"}),
+        _seq({"kind": "meas", "via": "path", "bitstrings": [[0, 1], [1, 1], [0, 1]], "np": False},
+             {"kind": "meas", "via": "path", "bitstrings": [[0, 1], [1, 0], [0, 1]], "np": False, "inplace": True},
+             {"kind": "meas", "via": "path", "bitstrings": [[0, 1], [1, 0], [0, 1]], "np": False, "inplace": True, "altpath": True}),
+        _seq({"kind": "ve", "via": "path", "value": "3/2", "precision": "1/8", "np": False},
+             {"kind": "ve", "via": "path", "value": "3/2", "precision": None, "np": False, "inplace": True},
+             {"kind": "ve", "via": "path", "value": "3/2", "precision": 0, "np": False, "inplace": True}),
+        _seq({"kind": "list", "via": "path", "list": [1, 0, "", [], None, False]},
+             {"kind": "list", "via": "path", "list": [1, 0, "", [], None, True]}),
+        _seq({"kind": "par", "via": "path", "values": {"re": [[18, 50], [120, 113]], "im": None, "int": True}, "correlations": []},
+             {"kind": "par", "via": "path", "values": {"re": [[18, 50], [120, 113]], "im": None, "int": True}, "correlations": []}),
+        _seq({"kind": "layers", "via": "path", "layers": [[[0, 1], [2, 3]]]}, {"kind": "layers", "via": "path", "layers": [[[1, 0], [2, 3]]]}),
+        _seq({"kind": "nmeas", "K": "7/2", "nterms": 4, "frame_meas": {"re": [1, 2], "im": None}},
+             {"kind": "nmeas", "K": "7/2", "nterms": 5, "frame_meas": {"re": [1, 2], "im": None}},
+             {"kind": "nmeas", "K": "7/2", "nterms": 5, "frame_meas": None}),
+        # one list holding nearly equal / equal operators
+        {"kind": "opset", "via": "file", "ops": [[_t(zz, 0.5)], [_t(zz, 0.5000002)], [_t(zz, 0.5)], [_t(zz, -1.0)], [_t(zz, -2.0)]]},
+        # imaginary parts far below 1e-5 of the real parts everywhere; uniform and nearly uniform arrays
+        {"kind": "ev", "via": "path", "values": {"re": [2250000, 670000], "im": ["7/2", "-7/2"]},
+         "correlations": [{"re": [[2250000, 1200000], [1200000, 670000]], "im": [[0, "7/2"], ["-7/2", 0]]}], "covariances": None},
+        {"kind": "ev", "via": "path", "values": {"re": ["1/2", "1/2", "1/2", "1/2"], "im": None},
+         "correlations": [{"re": [[1, 1], [1, 1]], "im": None}],
+         "covariances": [{"re": [["1/2", "2251799813685249/4503599627370496"], ["1/2", "1/2"]], "im": None}]},
+        # wide registers (leading zeros), >= 64 unsorted shots
+        {"kind": "meas", "via": "path", "bitstrings": [[0] * 9, [0] * 8 + [1], [1] + [0] * 8, [0, 1] + [0] * 7], "np": False},
+        {"kind": "meas", "via": "fileobj", "bitstrings": big_meas, "np": False},
+        # numpy-typed coefficients
+        {"kind": "op", "via": "file", "terms": [npf, npc]},
+        {"kind": "text", "terms": [npf, npc]},
+    ]
 
 
 # --------------------------------------------------------------------------- generators
@@ -327,6 +445,794 @@ FREE_TEXTS = [
 ]
 
 
+# --------------------------------------------------------------------------- builders of single cases (used by the
+# sequence / large / exotic streams; the plain streams of generate() are older and kept as they were)
+NEAR = 1 + 2.0 ** -22      # ~2.4e-7 relative: below PauliTerm's tolerant ==/hash and np.allclose, far above 1e-8 absolute
+NEAR_ABS = 2.0 ** -23      # ~1.2e-7 absolute; both keep small dyadic values exact in doubles
+QPOOL_BIG = [0, 1, 2, 3, 7, 10, 12, 99, 100, 123, 1000, 4096, 65536, 10 ** 9]
+OP_VIAS = ["dict", "json", "file", "fileobj", "stringio", "binary", "pathlib"]
+ART_VIAS = ["path", "fileobj", "stringio", "binary", "pathlib"]
+
+
+def _key(ops):
+    return tuple(sorted((int(q), o) for q, o in ops))
+
+
+def gen_coef_spread(rng):
+    """complex coefficients whose parts differ by many orders of magnitude (both parts far above 1e-8 absolute or the
+    small one exactly representable): a relative tolerance applied to them loses the small part"""
+    big = rng.choice([1.0, 12.5, 1234.5, 1e6, 2.25e6, 1e9, 1e13]) * rng.choice([1, -1])
+    small = rng.choice([1e-7, 3.5e-6, 1e-5, 2.0 ** -20, 1e-3, 3.5]) * rng.choice([1, -1])
+    if abs(small) >= abs(big):
+        small = small * 1e-7
+    return complex(big, small) if rng.random() < 0.6 else complex(small, big)
+
+
+def gen_simple_operator(rng, n, pool=None, kmax=4, exact=False):
+    """n terms on pairwise different Pauli strings with |coefficient| > 1e-8: a simplified operator, for which the
+    property promises exact preservation"""
+    terms, keys, tries = [], set(), 0
+    pool = pool or (list(range(4)) if rng.random() < 0.5 else QPOOL_BIG)
+    while len(terms) < n and tries < 20 * n + 50:
+        tries += 1
+        k = rng.choice([0, 1, 1, 2, 2, 3, 4][: kmax + 3])
+        qs = rng.sample(pool, min(k, len(pool)))
+        ops = [[q, rng.choice(PAULIS)] for q in qs]
+        if _key(ops) in keys:
+            continue
+        r = rng.random()
+        c = gen_coef(rng, True) if exact else (gen_coef_spread(rng) if r < 0.15 else gen_coef(rng, False))
+        if not abs(c) > 2e-8:
+            continue
+        keys.add(_key(ops))
+        terms.append({"ops": ops, "coef": enc_coef(c, npy=(not exact and rng.random() < 0.08))})
+    return terms
+
+
+def _digit_sibling(rng, x):
+    """a float whose text has the same length and differs in its last digit (the files have the same size)"""
+    tx = repr(x)
+    if "e" in tx or "n" in tx or "." not in tx or not tx[-1].isdigit():
+        return None
+    for d in rng.sample("123456789", 9):
+        if d != tx[-1]:
+            y = float(tx[:-1] + d)
+            if repr(y) == tx[:-1] + d:
+                return y
+    return None
+
+
+def _vary_coef(rng, e, mode):
+    """a sibling coefficient (encoded); None if the mode does not apply"""
+    c = dec_py(e)
+    npy = bool(e.get("np"))
+    if mode in ("near", "abs"):
+        def f(x):
+            return x * NEAR if mode == "near" else x + NEAR_ABS
+        if isinstance(c, complex):
+            which = rng.randrange(3)
+            c2 = complex(f(c.real) if which != 1 else c.real, f(c.imag) if which != 0 else c.imag)
+        else:
+            c2 = f(float(c))
+    elif mode == "digit":
+        if isinstance(c, complex):
+            im = _digit_sibling(rng, c.imag)
+            re = _digit_sibling(rng, c.real) if im is None else None
+            if im is None and re is None:
+                return None
+            c2 = complex(c.real if re is None else re, c.imag if im is None else im)
+        elif isinstance(c, float):
+            c2 = _digit_sibling(rng, c)
+            if c2 is None:
+                return None
+        else:
+            c2 = c + rng.choice([1, -1]) if abs(c) % 10 not in (0, 9) and abs(c) > 10 else None
+            if c2 is None:
+                return None
+    elif mode == "hash":
+        # hash(-1) == hash(-2) for int, float and the parts of a complex
+        def h(x):
+            return type(x)(-2) if x == -1 else type(x)(-1)
+        c2 = complex(h(c.real), c.imag) if isinstance(c, complex) else h(c)
+    elif mode == "neg":
+        c2 = -c
+    elif mode == "type":
+        if isinstance(c, complex):
+            c2 = c.real if c.imag == 0 else complex(c.imag, c.real)
+        elif isinstance(c, float):
+            c2 = complex(c, 0.0) if rng.random() < 0.5 or c != int(c) else int(c)
+        else:
+            c2 = float(c)
+    elif mode == "imag":
+        c2 = complex(c.real, c.imag + max(abs(c), 1.0) * 1e-7) if isinstance(c, complex) else complex(c, max(abs(c), 1.0) * 1e-7)
+    elif mode == "np":
+        return dict(e, np=not npy) if e["t"] != "int" else enc_coef(float(c), npy=True)
+    else:
+        return None
+    if not (2e-8 < abs(c2) < 1e15):
+        return None
+    return enc_coef(c2, npy=npy and not isinstance(c2, int))
+
+
+TERM_MODES = ["same", "near", "abs", "digit", "hash", "neg", "type", "imag", "np", "swapcoef", "letter", "qubit", "reorder",
+              "perm", "drop", "add", "neardup"]
+
+
+def vary_terms(rng, terms, mode):
+    """a sibling operator: `terms` with exactly one component changed"""
+    ts = [{"ops": [list(p) for p in t["ops"]], "coef": dict(t["coef"])} for t in terms]
+    if not ts:
+        mode = "add" if mode != "same" else "same"
+    keys = {_key(t["ops"]) for t in ts}
+    i = rng.randrange(len(ts)) if ts else 0
+    if mode in ("near", "abs", "digit", "hash", "neg", "type", "imag", "np"):
+        e = _vary_coef(rng, ts[i]["coef"], mode) or _vary_coef(rng, ts[i]["coef"], "near") or _vary_coef(rng, ts[i]["coef"], "neg")
+        if e is not None:
+            ts[i]["coef"] = e
+    elif mode == "swapcoef" and len(ts) >= 2:
+        j = rng.choice([x for x in range(len(ts)) if x != i])
+        ts[i]["coef"], ts[j]["coef"] = ts[j]["coef"], ts[i]["coef"]
+    elif mode == "letter" and ts[i]["ops"]:
+        k = rng.randrange(len(ts[i]["ops"]))
+        old = ts[i]["ops"][k][1]
+        ts[i]["ops"][k][1] = rng.choice([x for x in PAULIS if x != old])
+        if _key(ts[i]["ops"]) in keys:
+            ts[i]["ops"][k][1] = old
+    elif mode == "qubit" and ts[i]["ops"]:
+        k = rng.randrange(len(ts[i]["ops"]))
+        used = {q for q, _ in ts[i]["ops"]}
+        old = ts[i]["ops"][k][0]
+        cand = [q for q in (old + 1, old * 10, old * 10 + 1, old + 10, 0) if q not in used]
+        ts[i]["ops"][k][0] = rng.choice(cand)
+        if _key(ts[i]["ops"]) in keys:
+            ts[i]["ops"][k][0] = old
+    elif mode == "reorder":
+        ts[i]["ops"].reverse()
+    elif mode == "perm" and len(ts) >= 2:
+        ts = ts[1:] + ts[:1]
+    elif mode == "drop" and len(ts) >= 2:
+        del ts[i]
+    elif mode == "add":
+        new = gen_simple_operator(rng, 1)
+        if new and _key(new[0]["ops"]) not in keys:
+            ts.insert(rng.randrange(len(ts) + 1), new[0])
+    elif mode == "neardup" and ts:
+        # an unsimplified sum: a second term on the same Pauli string with a nearly equal (dyadic, hence exactly
+        # summable) coefficient
+        c = 0
+        while not c:
+            c = rng.randrange(-2 ** 10, 2 ** 10) / 2 ** rng.randrange(0, 6)
+        ts[i]["coef"] = enc_coef(c)
+        ops = [list(p) for p in ts[i]["ops"]]
+        rng.shuffle(ops)
+        ts.insert(rng.randrange(len(ts) + 1), {"ops": ops, "coef": enc_coef(c * NEAR if rng.random() < 0.5 else c + NEAR_ABS)})
+    return ts
+
+
+# ---- arrays
+def _leaves(x, path=()):
+    if isinstance(x, list):
+        out = []
+        for i, y in enumerate(x):
+            out += _leaves(y, path + (i,))
+        return out
+    return [path]
+
+
+def _get(x, path):
+    for i in path:
+        x = x[i]
+    return x
+
+
+def _set(x, path, v):
+    for i in path[:-1]:
+        x = x[i]
+    x[path[-1]] = v
+
+
+def _copy_nest(x):
+    return [_copy_nest(y) for y in x] if isinstance(x, list) else x
+
+
+def _map_nest(x, f):
+    return [_map_nest(y, f) for y in x] if isinstance(x, list) else f(x)
+
+
+def _fl(v):
+    """float of an encoded leaf"""
+    return float(unrat(v))
+
+
+def vary_carr(rng, a, mode=None):
+    """a sibling array: one element / the imaginary part changed (same shape)"""
+    b = {k: (_copy_nest(v) if isinstance(v, list) else v) for k, v in a.items()}
+    is_int = bool(a.get("int")) or str(a.get("dtype", "")).startswith(("int", "uint"))
+    narrow = bool(a.get("dtype"))
+    paths = _leaves(b["re"])
+    if not paths or not isinstance(b["re"], list):
+        return b
+    mode = mode or rng.choice(["same", "near", "elem", "swap2", "tinyimag", "dropimag", "neg", "zero"])
+    p = rng.choice(paths)
+    part = "im" if b.get("im") is not None and rng.random() < 0.5 else "re"
+    if mode == "near" and not is_int and not narrow:
+        v = _fl(_get(b[part], p))
+        _set(b[part], p, rat(Fraction(v * NEAR if v else NEAR_ABS)))
+    elif mode == "elem":
+        _set(b[part], p, rng.randrange(0, 100) if is_int or narrow else rat(Fraction(rng.uniform(-2, 2))))
+    elif mode == "swap2" and len(paths) >= 2:
+        q = rng.choice([x for x in paths if x != p])
+        u, v = _get(b[part], p), _get(b[part], q)
+        _set(b[part], p, v)
+        _set(b[part], q, u)
+    elif mode == "tinyimag" and not is_int and not narrow and b.get("im") is None:
+        b["im"] = _map_nest(b["re"], lambda v: rat(Fraction(_fl(v) * 1e-7 if _fl(v) else 1e-9)))
+    elif mode == "dropimag" and b.get("im") is not None and not str(a.get("dtype", "")).startswith("complex"):
+        b["im"] = None
+    elif mode == "neg" and not str(a.get("dtype", "")).startswith("uint"):
+        v = unrat(_get(b[part], p))
+        _set(b[part], p, rat(-v))
+    elif mode == "zero":
+        _set(b[part], p, 0)
+    return b
+
+
+def gen_carr2(rng, shape, kind="float", cplx=None):
+    """gen_carr plus the shapes a fast path or a tolerance would single out"""
+    r = rng.random()
+    if kind == "int" or r < 0.45:
+        a = gen_carr(rng, shape, kind, cplx)
+        if kind == "int" and rng.random() < 0.2:
+            a["dtype"] = rng.choice(["int32", "int16", "uint16"])
+        elif kind == "int" and rng.random() < 0.15:
+            # counts beyond 2**53 (exact in int64, not in a double)
+            for p in _leaves(a["re"])[:2]:
+                _set(a["re"], p, 2 ** 53 + 1 + rng.randrange(0, 1000))
+        if rng.random() < 0.2:
+            a["layout"] = rng.choice(["F", "strided", "T", "ro"])
+        return a
+    if r < 0.6:
+        # uniform / nearly uniform
+        v = rng.choice([0.0, 1.0, -0.5, 0.1, 12345.678, 1e-9])
+        exact = rng.random() < 0.5
+        a = {"re": _map_nest(gen_nested(rng, shape, "int"), lambda _: rat(Fraction(v))), "im": None}
+        if not exact:
+            ps = _leaves(a["re"])
+            for p in rng.sample(ps, max(1, len(ps) // 3)):
+                _set(a["re"], p, rat(Fraction(v * (1 + 1e-9) if v else 1e-12)))
+        return a
+    if r < 0.75:
+        # complex with imaginary parts tiny relative to the real parts, everywhere
+        re = _map_nest(gen_nested(rng, shape, "int"), lambda _: rat(Fraction(rng.choice([1.0, 6.7e5, 1.2e6, 2.25e6, -3.5e3]) * rng.uniform(0.5, 1))))
+        im = _map_nest(re, lambda v: rat(Fraction(_fl(v) * rng.choice([1e-6, 3e-7, 1e-9, 0.0]))))
+        if all(unrat(_get(im, p)) == 0 for p in _leaves(im)):
+            _set(im, _leaves(im)[0], rat(Fraction(1e-7)))
+        return {"re": re, "im": None if cplx is False else im}
+    if r < 0.87:
+        # wide dynamic range inside one array
+        return {"re": _map_nest(gen_nested(rng, shape, "int"), lambda _: rat(Fraction(rng.uniform(-1, 1) * 10.0 ** rng.randrange(-12, 13)))),
+                "im": None if cplx is False or rng.random() < 0.6 else _map_nest(gen_nested(rng, shape, "int"), lambda _: rat(Fraction(rng.uniform(-1, 1) * 10.0 ** rng.randrange(-12, 13))))}
+    # narrow dtypes: small dyadic values, exactly representable
+    dt = rng.choice(["float32", "float16", "complex64", "int8"])
+    re = _map_nest(gen_nested(rng, shape, "int"), lambda _: rat(Fraction(rng.randrange(-64, 64), 1 if dt == "int8" else 8)))
+    a = {"re": re, "im": None, "dtype": dt}
+    if dt == "complex64":
+        a["im"] = _map_nest(re, lambda _: rat(Fraction(rng.randrange(-64, 64), 8)))
+    if dt == "int8":
+        a["int"] = True
+    if rng.random() < 0.3:
+        a["layout"] = rng.choice(["F", "strided", "T"])
+    if cplx is False:
+        a["im"] = None
+        if dt == "complex64":
+            a["dtype"] = "float32"
+    return a
+
+
+def mk_op(rng, via=None, n=None, simple=None):
+    simple = rng.random() < 0.75 if simple is None else simple
+    if simple:
+        terms = gen_simple_operator(rng, rng.choice([1, 1, 2, 3, 4, 6]) if n is None else n)
+    else:
+        terms = gen_operator(rng, allow_dups=True)
+    c = {"kind": "op", "via": via or rng.choice(OP_VIAS), "terms": terms}
+    if len(terms) == 1 and rng.random() < 0.5:
+        c["single"] = True
+    return c
+
+
+def mk_text(rng, n=None):
+    terms = gen_simple_operator(rng, rng.choice([1, 1, 2, 3, 4]) if n is None else n) if rng.random() < 0.7 else gen_operator(rng, allow_dups=False)
+    c = {"kind": "text", "terms": terms}
+    if len(terms) == 1 and rng.random() < 0.5:
+        c["single"] = True
+    return c
+
+
+def mk_opset(rng, via=None, n=None):
+    n = rng.choice([1, 2, 3, 4]) if n is None else n
+    ops = []
+    for _ in range(n):
+        r = rng.random()
+        if ops and r < 0.45:
+            # a sibling of an earlier member (iterates of one Hamiltonian / groupings repeat terms)
+            ops.append(vary_terms(rng, rng.choice(ops), rng.choice(["same", "near", "abs", "digit", "hash", "swapcoef", "letter", "perm"])))
+        elif r < 0.55:
+            ops.append([])
+        else:
+            ops.append(gen_simple_operator(rng, rng.choice([1, 2, 3])))
+    return {"kind": "opset", "via": via or rng.choice(["file", "fileobj", "stringio", "binary", "pathlib"]), "ops": ops}
+
+
+def mk_ev(rng, via=None, n=None, m=None, nframes=None):
+    n = n or rng.randrange(1, 5)
+
+    def mk():
+        mm = m or rng.randrange(1, 4)
+        return gen_carr2(rng, [mm, mm])
+
+    def frames():
+        if nframes is not None:
+            return [mk() for _ in range(nframes)]
+        fr = gen_frames(rng, mk)
+        if fr and rng.random() < 0.2:
+            fr.append(_copy_nest_dict(rng.choice(fr)))       # the same frame twice
+        return fr
+    return {"kind": "ev", "via": via or rng.choice(ART_VIAS), "values": gen_carr2(rng, [n]), "correlations": frames(), "covariances": frames()}
+
+
+def _copy_nest_dict(a):
+    return {k: (_copy_nest(v) if isinstance(v, list) else v) for k, v in a.items()}
+
+
+def mk_par(rng, via=None, n=None, m=None):
+    n = n or rng.randrange(1, 5)
+
+    def mkp():
+        mm = m or rng.randrange(1, 4)
+        return gen_carr2(rng, [mm, mm, 2], kind=rng.choice(["int", "int", "float"]), cplx=False)
+    return {"kind": "par", "via": via or rng.choice(ART_VIAS), "values": gen_carr2(rng, [n, 2], kind=rng.choice(["int", "int", "float"]), cplx=False),
+            "correlations": gen_frames(rng, mkp)}
+
+
+def mk_ve(rng, via=None):
+    prec = rng.choice([None, None, rat(Fraction(rng.randrange(1, 1000), 2 ** 12)), rat(Fraction(rng.uniform(0, 1))), 0, rat(Fraction(1e-300)), rat(Fraction(2.5e-9))])
+    val = rng.choice([rat(Fraction(rng.uniform(-5, 5))), rat(Fraction(rng.randrange(-100, 100), 16)), 0, rat(Fraction(1e-300)), rat(Fraction(-1e300)),
+                      rat(Fraction(0.1 + 0.2)), rat(Fraction(rng.uniform(-1, 1) * 1e-9))])
+    return {"kind": "ve", "via": via or rng.choice(ART_VIAS), "value": val, "precision": prec, "np": rng.random() < 0.4}
+
+
+def mk_meas(rng, via=None, w=None, shots=None, plain=False):
+    w = rng.randrange(0, 6) if w is None else w
+    shots = rng.choice([0, 1, 2, 5, 9]) if shots is None else shots
+    r = 1.0 if plain else rng.random()
+    if r < 0.15 and shots:
+        one = [rng.randrange(2) for _ in range(w)]
+        bs = [list(one) for _ in range(shots)]                 # all shots equal
+    elif r < 0.25:
+        bs = [[0] * w for _ in range(shots)]                   # all-zero (falsy) outcomes
+    elif r < 0.35:
+        bs = sorted([rng.randrange(2) for _ in range(w)] for _ in range(shots))   # already sorted
+    else:
+        bs = [[rng.randrange(2) for _ in range(w)] for _ in range(shots)]
+    return {"kind": "meas", "via": via or rng.choice(ART_VIAS), "bitstrings": bs, "np": rng.choice([False, False, "int8"])}
+
+
+FALSY_ITEMS = [0, "", [], False, None, "0", [[]], [0]]
+
+
+def mk_list(rng, via=None, n=None):
+    def item(d=0):
+        r = rng.random()
+        if r < 0.25:
+            return rng.randrange(-1000, 1000)
+        if r < 0.5:
+            return rat(Fraction(rng.uniform(-3, 3)))
+        if r < 0.6:
+            return rng.choice(["a", "", "0110", "x y", "null", "NaN"])
+        if r < 0.72:
+            return rng.choice(FALSY_ITEMS + [True, 2 ** 53 + 1, -(2 ** 63) - 5, 2 ** 61 - 1, 10 ** 30])
+        if d < 2:
+            return [item(d + 1) for _ in range(rng.randrange(0, 4))]
+        return 0
+    n = rng.randrange(0, 6) if n is None else n
+    r = rng.random()
+    if r < 0.1 and n:
+        lst = [item()] * n                                      # all items equal
+    else:
+        lst = [item() for _ in range(n)]
+    return {"kind": "list", "via": via or rng.choice(ART_VIAS), "list": _copy_nest(lst)}
+
+
+def mk_layers(rng, via=None, nl=None, per=None):
+    hi = rng.choice([12, 12, 200, 5000])
+    layers = [[rng.sample(range(hi), rng.choice([2, 2, 3])) for _ in range(rng.randrange(0, 4) if per is None else per)]
+              for _ in range(rng.randrange(0, 4) if nl is None else nl)]
+    return {"kind": "layers", "via": via or rng.choice(ART_VIAS), "layers": layers}
+
+
+def mk_conn(rng, via=None, n=None):
+    hi = rng.choice([20, 20, 300, 5000])
+    r = rng.random()
+    if r < 0.2:
+        k = rng.randrange(2, 8)
+        conn = [[i, i + 1] for i in range(k)]                   # a line: sorted, contiguous
+    else:
+        conn = [rng.sample(range(hi), rng.choice([2, 2, 3])) for _ in range(rng.randrange(0, 6) if n is None else n)]
+    return {"kind": "conn", "via": via or rng.choice(ART_VIAS), "connectivity": conn}
+
+
+def mk_ordering(rng, via=None, n=None):
+    n = rng.randrange(0, 8) if n is None else n
+    order = list(range(n))
+    if rng.random() < 0.75:
+        rng.shuffle(order)                                      # else: the identity ordering (already sorted)
+    return {"kind": "ordering", "via": via or rng.choice(ART_VIAS), "ordering": order}
+
+
+def mk_nmeas(rng, n=None):
+    fm = None if rng.random() < 0.15 else gen_carr2(rng, [n or rng.randrange(1, 5)], cplx=False)
+    if fm is not None and fm.get("im") is not None:
+        fm = {"re": fm["re"], "im": None}
+    K = rng.choice([rat(Fraction(rng.uniform(0, 1e6))), 0, rat(Fraction(1e-12)), rat(Fraction(2.0 ** 60))])
+    return {"kind": "nmeas", "K": K, "nterms": rng.choice([rng.randrange(0, 50), 0, 2 ** 53 + 1]), "frame_meas": fm}
+
+
+# ---- siblings of artefact cases
+def _vary_frames(rng, fr, mk):
+    """None <-> [] <-> frames; one frame changed / dropped / duplicated / moved"""
+    r = rng.random()
+    if fr is None:
+        return [] if r < 0.5 else [mk()]
+    if not fr:
+        return None if r < 0.5 else [mk()]
+    fr = [_copy_nest_dict(a) for a in fr]
+    if r < 0.5:
+        i = rng.randrange(len(fr))
+        fr[i] = vary_carr(rng, fr[i])
+    elif r < 0.6:
+        fr.append(_copy_nest_dict(rng.choice(fr)))
+    elif r < 0.7:
+        fr.reverse()
+    elif r < 0.8:
+        fr.pop(rng.randrange(len(fr)))
+    elif r < 0.9:
+        return None
+    return fr
+
+
+def vary_case(rng, c):
+    """a sibling case: differs from `c` in (at most) one component"""
+    import copy
+    k = c["kind"]
+    d = copy.deepcopy(c)
+    d.pop("inplace", None)
+    d.pop("derive", None)
+    if k in ("op", "text"):
+        mode = rng.choice(TERM_MODES)
+        if k == "text" and mode == "neardup":
+            mode = "near"
+        d["terms"] = vary_terms(rng, c["terms"], mode)
+        if len(d["terms"]) != 1:
+            d.pop("single", None)
+    elif k == "opset":
+        if d["ops"] and rng.random() < 0.8:
+            i = rng.randrange(len(d["ops"]))
+            d["ops"][i] = vary_terms(rng, d["ops"][i], rng.choice([m for m in TERM_MODES if m != "neardup"]))
+        elif rng.random() < 0.5:
+            d["ops"].append(gen_simple_operator(rng, 2))
+        else:
+            d["ops"].reverse()
+    elif k == "ev":
+        r = rng.random()
+        if r < 0.3:
+            d["values"] = vary_carr(rng, c["values"])
+        elif r < 0.4:
+            d["correlations"], d["covariances"] = d["covariances"], d["correlations"]
+        else:
+            key = rng.choice(["correlations", "covariances"])
+            d[key] = _vary_frames(rng, c[key], lambda: gen_carr2(rng, [2, 2]))
+    elif k == "par":
+        if rng.random() < 0.5:
+            d["values"] = vary_carr(rng, c["values"], rng.choice(["same", "elem", "swap2", "zero"]))
+        else:
+            fr = _vary_frames(rng, c["correlations"], lambda: gen_carr(rng, [2, 2, 2], kind="int", cplx=False))
+            d["correlations"] = fr
+    elif k == "ve":
+        r = rng.random()
+        if r < 0.6:
+            cur = c["precision"]
+            d["precision"] = rng.choice([x for x in [None, 0, rat(Fraction(1, 1024)), rat(Fraction(float(unrat(cur or 1)) * NEAR))] if x != cur])
+        elif r < 0.9:
+            v = float(unrat(c["value"]))
+            d["value"] = rat(Fraction(v * NEAR if v else NEAR_ABS))
+    elif k == "meas":
+        bs = d["bitstrings"]
+        r = rng.random()
+        if bs and bs[0] and r < 0.4:
+            i, j = rng.randrange(len(bs)), rng.randrange(len(bs[0]))
+            bs[i][j] = 1 - bs[i][j]
+        elif len(bs) >= 2 and r < 0.6:
+            i, j = rng.sample(range(len(bs)), 2)
+            bs[i], bs[j] = bs[j], bs[i]
+        elif r < 0.8:
+            w = len(bs[0]) if bs else rng.randrange(0, 4)
+            bs.insert(rng.randrange(len(bs) + 1), [rng.randrange(2) for _ in range(w)])
+        elif bs and r < 0.9:
+            bs.pop(rng.randrange(len(bs)))
+    elif k == "list":
+        lst = d["list"]
+        r = rng.random()
+        if lst and r < 0.4:
+            lst[rng.randrange(len(lst))] = rng.choice(FALSY_ITEMS + [1, "b", rat(Fraction(rng.uniform(-1, 1)))])
+        elif len(lst) >= 2 and r < 0.6:
+            i, j = rng.sample(range(len(lst)), 2)
+            lst[i], lst[j] = lst[j], lst[i]
+        elif r < 0.85:
+            lst.insert(rng.randrange(len(lst) + 1), _copy_nest(rng.choice(FALSY_ITEMS)))
+        d["list"] = _copy_nest(lst)
+    elif k in ("layers", "conn"):
+        groups = [g for layer in d["layers"] for g in layer] if k == "layers" else d["connectivity"]
+        r = rng.random()
+        if groups and r < 0.4:
+            rng.choice(groups).reverse()
+        elif groups and r < 0.7:
+            g = rng.choice(groups)
+            i = rng.randrange(len(g))
+            g[i] = next(x for x in (g[i] + 1, g[i] + 2, g[i] + 3, g[i] + 4) if x not in g)
+        elif k == "layers":
+            d["layers"].append([[0, 1]])
+        else:
+            d["connectivity"].append([0, 1])
+    elif k == "ordering":
+        o = d["ordering"]
+        if len(o) >= 2 and rng.random() < 0.7:
+            i, j = rng.sample(range(len(o)), 2)
+            o[i], o[j] = o[j], o[i]
+        else:
+            o.append(len(o))
+    elif k == "nmeas":
+        r = rng.random()
+        if r < 0.3:
+            v = float(unrat(c["K"]))
+            d["K"] = rat(Fraction(v * NEAR if v else NEAR_ABS))
+        elif r < 0.5:
+            d["nterms"] = c["nterms"] + 1
+        elif r < 0.7:
+            d["frame_meas"] = None if c["frame_meas"] is not None else gen_carr(rng, [2], cplx=False)
+        elif c["frame_meas"] is not None:
+            d["frame_meas"] = vary_carr(rng, c["frame_meas"], rng.choice(["near", "elem", "swap2", "zero"]))
+    return d
+
+
+MK = {"op": mk_op, "text": mk_text, "opset": mk_opset, "ev": mk_ev, "par": mk_par, "ve": mk_ve, "meas": mk_meas, "list": mk_list,
+      "layers": mk_layers, "conn": mk_conn, "ordering": mk_ordering}
+SEQ_KINDS = ["op"] * 6 + ["text"] * 4 + ["opset"] * 2 + ["ev"] * 4 + ["par"] * 2 + ["ve"] * 2 + ["meas"] * 3 + ["list"] * 2 + \
+    ["layers", "conn", "ordering", "nmeas", "nmeas"]
+OP_THEMES = [["near"], ["abs"], ["near", "abs"], ["digit"], ["digit", "same"], ["hash", "hash"], ["swapcoef"], ["same"], ["same", "near"],
+             ["type", "np"], ["imag", "near"], ["letter"], ["qubit", "reorder"], ["neardup"], None, None, None]
+
+
+def gen_seq(rng):
+    """a history: sibling cases executed one after the other on the same file name and (where a step says `inplace`)
+    on the same object, mutated through its public attributes.  Every step is an ordinary case of its own and is
+    judged by the ordinary oracle of its kind."""
+    k = rng.choice(SEQ_KINDS)
+    if rng.random() < 0.25:
+        # medium sizes: beyond 64 bytes / 8 doubles / 9 qubits, so that a key built from a prefix or a width collides
+        base = {"op": lambda: mk_op(rng, n=rng.choice([8, 12]), simple=True), "text": lambda: mk_text(rng, n=rng.choice([8, 12])),
+                "opset": lambda: mk_opset(rng, n=rng.choice([6, 10])), "ev": lambda: mk_ev(rng, n=rng.choice([9, 20]), m=rng.choice([3, 4])),
+                "par": lambda: mk_par(rng, n=rng.choice([9, 20]), m=3), "ve": lambda: mk_ve(rng),
+                "meas": lambda: mk_meas(rng, w=rng.choice([3, 9, 10]), shots=rng.choice([10, 33, 70])),
+                "list": lambda: mk_list(rng, n=rng.choice([10, 30])), "layers": lambda: mk_layers(rng, nl=4, per=5),
+                "conn": lambda: mk_conn(rng, n=rng.choice([10, 70])), "ordering": lambda: mk_ordering(rng, n=rng.choice([10, 70])),
+                "nmeas": lambda: mk_nmeas(rng, n=rng.choice([9, 20]))}[k]()
+    else:
+        base = mk_nmeas(rng) if k == "nmeas" else MK[k](rng)
+    same_via = rng.random() < 0.7
+    if same_via and "via" in base and rng.random() < 0.6:
+        base["via"] = "file" if k in ("op", "opset") else "path"
+    steps = [base]
+    theme = rng.choice(OP_THEMES) if k in ("op", "text") else None
+    n = len(theme) + 1 if theme else rng.choice([2, 3, 3, 4])
+    for i in range(1, n):
+        prev = steps[-1]
+        if theme:
+            import copy
+            st = copy.deepcopy(prev)
+            st.pop("inplace", None)
+            st.pop("derive", None)
+            mode = theme[i - 1]
+            if k == "text" and mode == "neardup":
+                mode = "near"
+            st["terms"] = vary_terms(rng, prev["terms"], mode)
+            if len(st["terms"]) != 1:
+                st.pop("single", None)
+        else:
+            st = vary_case(rng, prev)
+        r = rng.random()
+        if r < 0.45:
+            st["inplace"] = True
+        elif r < 0.7 and k in ("op", "text"):
+            st["derive"] = rng.choice(DERIVE_OPS)
+            st["inplace"] = rng.random() < 0.5      # used when the derivation does not apply to this shape
+        elif r < 0.65 and k not in ("opset", "nmeas"):
+            st["derive"] = "reload"
+        if "via" in st and not same_via:
+            st["via"] = rng.choice(OP_VIAS if k == "op" else (OP_VIAS[2:] if k == "opset" else ART_VIAS))
+        st.pop("altpath", None)
+        if rng.random() < 0.2:
+            st["altpath"] = True                                 # the same (or changed) object saved under another file name
+        steps.append(st)
+    if rng.random() < 0.35:
+        import copy
+        again = copy.deepcopy(steps[0])                          # A, B, A
+        if rng.random() < 0.5:
+            again["inplace"] = True
+        steps.append(again)
+    return {"kind": "seq", "steps": steps}
+
+
+DERIVE_OPS = ["copy", "copy", "simplify", "mul1", "reparse", "reload"]
+
+
+def gen_pairs(rng):
+    """every kind of one-component change of an operator x every way of getting the second object (new object, the
+    first one changed in place, a copy(new_coefficient) of the first) at least once per run, for the dict/file routes
+    and for the text route"""
+    import copy
+    out = []
+    for k in ("op", "text"):
+        for mode in TERM_MODES:
+            if k == "text" and mode == "neardup":
+                continue
+            for how in ("new", "inplace", "copy"):
+                base = mk_op(rng, simple=True) if k == "op" else mk_text(rng)
+                if not base["terms"]:
+                    base["terms"] = gen_simple_operator(rng, 2)
+                    base.pop("single", None)
+                if mode in ("swapcoef", "perm", "drop") and len(base["terms"]) < 2:
+                    base["terms"] = gen_simple_operator(rng, 3)
+                    base.pop("single", None)
+                st = copy.deepcopy(base)
+                st["terms"] = vary_terms(rng, base["terms"], mode)
+                if len(st["terms"]) != 1:
+                    st.pop("single", None)
+                if how == "inplace":
+                    st["inplace"] = True
+                elif how == "copy":
+                    st["derive"] = "copy"
+                steps = [base, st]
+                if rng.random() < 0.3:
+                    again = copy.deepcopy(base)
+                    again["inplace"] = rng.random() < 0.5
+                    steps.append(again)
+                out.append({"kind": "seq", "steps": steps})
+        # an object MADE BY THE LIBRARY (simplify / 1 * op / parser / loader) and then changed through its attributes
+        for der in ("simplify", "mul1", "reparse", "reload"):
+            for mode in ("near", "abs", "digit", "type", "imag", "neg"):
+                base = mk_op(rng, simple=True, n=rng.choice([1, 2, 3])) if k == "op" else mk_text(rng, n=rng.choice([1, 2, 3]))
+                if not base["terms"]:
+                    base["terms"] = gen_simple_operator(rng, 2)
+                if der in ("simplify", "reload") or len(base["terms"]) != 1:
+                    base.pop("single", None)
+                made = copy.deepcopy(base)
+                made["derive"] = der
+                st = copy.deepcopy(base)
+                st["terms"] = vary_terms(rng, base["terms"], mode)
+                st["inplace"] = True
+                out.append({"kind": "seq", "steps": [base, made, st]})
+    return out
+
+
+def _bump_last(a):
+    """array encoding with its LAST element changed (a long common prefix, a different tail)"""
+    b = _copy_nest_dict(a)
+    p = _leaves(b["re"])[-1]
+    v = unrat(_get(b["re"], p))
+    _set(b["re"], p, 8 if v == 7 else 7)      # a small integer: exact in every dtype used
+    return b
+
+
+def gen_tail_pairs(rng):
+    """medium-size artefacts (more than 8 numbers / 64 bytes) and a sibling that differs only at the very end, as a new
+    object and as the first object changed in place: a key made of a prefix, a length or a shape does not tell them apart"""
+    import copy
+    out = []
+    for how in ("new", "inplace"):
+        bases = [
+            {"kind": "ev", "via": "path", "values": gen_carr(rng, [rng.choice([12, 20])], cplx=False),
+             "correlations": [gen_carr(rng, [4, 4], cplx=False)], "covariances": [gen_carr(rng, [3, 3], cplx=True)]},
+            {"kind": "par", "via": "path", "values": gen_carr(rng, [rng.choice([9, 16]), 2], kind="int", cplx=False),
+             "correlations": [gen_carr(rng, [3, 3, 2], kind="int", cplx=False)]},
+            {"kind": "nmeas", "K": rat(Fraction(rng.uniform(0, 1e6))), "nterms": rng.randrange(1, 50), "frame_meas": gen_carr(rng, [12], cplx=False)},
+            mk_meas(rng, via="path", w=rng.choice([3, 9, 13]), shots=rng.choice([12, 70]), plain=True),
+            mk_list(rng, via="path", n=rng.choice([12, 40])),
+            mk_conn(rng, via="path", n=rng.choice([12, 40])),
+            mk_layers(rng, via="path", nl=3, per=6),
+            mk_ordering(rng, via="path", n=rng.choice([12, 40])),
+        ]
+        for base in bases:
+            st = copy.deepcopy(base)
+            k = base["kind"]
+            if k == "ev":
+                key = rng.choice(["values", "correlations", "covariances"])
+                if key == "values":
+                    st["values"] = _bump_last(base["values"])
+                else:
+                    st[key][-1] = _bump_last(base[key][-1])
+            elif k == "par":
+                if rng.random() < 0.5:
+                    st["values"] = _bump_last(base["values"])
+                else:
+                    st["correlations"][-1] = _bump_last(base["correlations"][-1])
+            elif k == "nmeas":
+                st["frame_meas"] = _bump_last(base["frame_meas"])
+            elif k == "meas":
+                st["bitstrings"][-1][-1] = 1 - st["bitstrings"][-1][-1]
+            elif k == "list":
+                st["list"][-1] = "tail"
+            elif k == "conn":
+                st["connectivity"][-1] = list(reversed(st["connectivity"][-1]))
+            elif k == "layers":
+                st["layers"][-1][-1] = list(reversed(st["layers"][-1][-1]))
+            elif k == "ordering":
+                st["ordering"][-1], st["ordering"][-2] = st["ordering"][-2], st["ordering"][-1]
+            if how == "inplace":
+                st["inplace"] = True
+            out.append({"kind": "seq", "steps": [base, st, copy.deepcopy(base)]})
+    return out
+
+
+def gen_big(rng, tier):
+    """shapes beyond the thresholds at which a fast path would plausibly switch (>= 64 items, widths >= 9 / >= 13)"""
+    pool = list(range(40)) + [64, 100, 128, 1000, 4096]
+    out = [
+        {"kind": "op", "via": rng.choice(["file", "json", "fileobj"]), "terms": gen_simple_operator(rng, rng.choice([64, 65, 100, 130]), pool=pool)},
+        {"kind": "op", "via": "dict", "terms": gen_simple_operator(rng, 70, pool=pool, exact=True)},
+        {"kind": "text", "terms": gen_simple_operator(rng, rng.choice([64, 90]), pool=pool)},
+        mk_opset(rng, via=rng.choice(["file", "fileobj"]), n=rng.choice([64, 65, 80])),
+        mk_meas(rng, w=rng.choice([9, 10, 12]), shots=rng.choice([3, 7])),
+        mk_meas(rng, w=rng.choice([13, 16, 20]), shots=rng.choice([5, 64]), plain=True),
+        mk_meas(rng, w=rng.choice([2, 3, 5]), shots=rng.choice([64, 100, 1000]), plain=True),
+        mk_meas(rng, w=rng.choice([1, 3, 5]), shots=rng.choice([64, 100])),
+        mk_meas(rng, w=rng.choice([9, 13]), shots=rng.choice([1, 2])),
+        mk_ev(rng, n=rng.choice([64, 100]), m=rng.choice([8, 9, 13]), nframes=rng.choice([1, 2])),
+        mk_ev(rng, n=3, m=2, nframes=rng.choice([8, 64])),
+        mk_par(rng, n=rng.choice([64, 100]), m=rng.choice([6, 8])),
+        mk_list(rng, n=rng.choice([64, 200])),
+        mk_layers(rng, nl=rng.choice([3, 64]), per=rng.choice([22, 3])),
+        mk_conn(rng, n=rng.choice([64, 150])),
+        mk_ordering(rng, n=rng.choice([64, 100, 500])),
+        mk_nmeas(rng, n=rng.choice([64, 100])),
+    ]
+    # wide registers: leading zeros and a sibling differing in the leading bit
+    w = rng.choice([9, 13])
+    out.append({"kind": "meas", "via": "path", "bitstrings": [[0] * w, [0] * (w - 1) + [1], [1] + [0] * (w - 1), [0, 1] + [0] * (w - 2)], "np": False})
+    return out
+
+
+def gen_exotic(rng):
+    """legal but unusual inputs, one component at a time"""
+    out = []
+    for via in OP_VIAS:
+        out.append(mk_op(rng, via=via, simple=True))
+    for via in ART_VIAS:
+        out.append(rng.choice([mk_ev, mk_par, mk_ve, mk_meas, mk_list, mk_layers, mk_conn, mk_ordering])(rng, via=via))
+    # numpy-typed coefficients of every flavour, through every route
+    for via in ("dict", "file", "fileobj"):
+        ts = [_t([(0, "X"), (11, "Y")], 0.1), _t([(2, "Z")], 1 + 2j), _t([], -2.5e-7), _t([(1, "Y")], complex(0.0, 3e-6))]
+        for t in ts:
+            t["coef"]["np"] = True
+        out.append({"kind": "op", "via": via, "terms": ts})
+    ts = [_t([(0, "X")], 0.1), _t([(2, "Z"), (5, "Z")], 1 - 2j), _t([], 3e-7)]
+    for t in ts:
+        t["coef"]["np"] = True
+    out.append({"kind": "text", "terms": ts})
+    out.append({"kind": "text", "terms": ts[1:2], "single": True})
+    return out
+
+
 def generate(rng, tier):
     big = tier == "thorough"
     mul = 8 if big else 1
@@ -417,14 +1323,31 @@ def generate(rng, tier):
     for i in range(12 * mul):
         fm = None if rng.random() < 0.15 else gen_carr(rng, [rng.randrange(1, 5)], cplx=False)
         cases.append({"kind": "nmeas", "K": rat(Fraction(rng.uniform(0, 1e6))), "nterms": rng.randrange(0, 50), "frame_meas": fm})
+    # ---- histories of sibling cases, large shapes, unusual-but-legal inputs (independent PRNG streams, so the plain
+    # streams above are the same whatever is added here)
+    r2 = random.Random(rng.random())
+    for _ in range(110 * mul):
+        cases.append(gen_seq(r2))
+    r5 = random.Random(rng.random())
+    for _ in range(1 if not big else 4):
+        cases += gen_pairs(r5)
+        cases += gen_tail_pairs(r5)
+    r3 = random.Random(rng.random())
+    for _ in range(1 if not big else 4):
+        cases += gen_big(r3, tier)
+    r4 = random.Random(rng.random())
+    for _ in range(2 * mul):
+        cases += gen_exotic(r4)
     return cases
 
 
 def nontrivial(c):
     k = c["kind"]
+    if k == "seq":
+        return len(c["steps"]) >= 2
     if k in ("op", "text"):
         def exp_fmt(e):
-            return e["t"] != "int" and ("e" in repr(dec_coef(e)))
+            return e["t"] != "int" and ("e" in repr(dec_py(e)))
         return any(t["coef"]["t"] == "complex" or exp_fmt(t["coef"]) or not t["ops"] for t in c["terms"])
     if k == "opset":
         return any(any(t["coef"]["t"] == "complex" or not t["ops"] for t in o) for o in c["ops"])
@@ -446,20 +1369,44 @@ def nontrivial(c):
 
 
 # --------------------------------------------------------------------------- implementation side
-class _Tmp:
-    def __enter__(self):
-        self.d = tempfile.mkdtemp(prefix="oq_c11_")
-        return os.path.join(self.d, "artefact.json")
+class _Env:
+    """what the steps of one history share: one directory and file name, and the previous input object of each kind"""
 
-    def __exit__(self, *a):
+    def __init__(self):
+        self.d = tempfile.mkdtemp(prefix="oq_c11_")
+        self.path_a = os.path.join(self.d, "artefact.json")
+        self.path_b = os.path.join(self.d, "artefact_b.json")
+        self.path = self.path_a
+        self.prev = {}
+        self.last_path = {}
+
+    def close(self):
         shutil.rmtree(self.d, ignore_errors=True)
 
 
-def _load(loader, path, via):
+def _save_path(path, via):
+    return pathlib.Path(path) if via == "pathlib" else path
+
+
+def _load(loader, path, via, accepts_pathlike=False):
     if via == "fileobj":
         with open(path, "r") as f:
             return loader(f)
+    if via == "binary":
+        with open(path, "rb") as f:
+            return loader(f)
+    if via == "stringio":
+        with open(path, "r") as f:
+            text = f.read()
+        return loader(io.StringIO(text))
+    if via == "pathlib" and accepts_pathlike:
+        return loader(pathlib.Path(path))
     return loader(path)
+
+
+def _other_via(via):
+    """the second load of a step uses the other kind of source (a path if the first was not, else an open file)"""
+    return "fileobj" if via in ("path", "file", "pathlib") else "path"
 
 
 def _file_json(path):
@@ -467,56 +1414,235 @@ def _file_json(path):
         return std_json.load(f)
 
 
+def _scribble(L, x, depth=0):
+    """overwrite an object the library RETURNED (it belongs to the caller); what the library does later must not depend on it"""
+    np = L.np
+    if depth > 6 or x is None:
+        return
+    if isinstance(x, np.ndarray):
+        if x.size and x.flags.writeable:
+            x[...] = 77
+    elif isinstance(x, dict):
+        for v in list(x.values()):
+            _scribble(L, v, depth + 1)
+        x.clear()
+        x["overwritten by the caller"] = 77
+    elif isinstance(x, list):
+        for v in x:
+            _scribble(L, v, depth + 1)
+        x.clear()
+        x.append(77)
+    elif isinstance(x, L.PauliTerm):
+        x.coefficient = 77.5
+    elif isinstance(x, L.PauliSum):
+        for t in x.terms:
+            _scribble(L, t, depth + 1)
+        if isinstance(x.terms, list):
+            x.terms.clear()
+    elif isinstance(x, L.EV):
+        for a in (x.values, x.correlations, x.estimator_covariances):
+            _scribble(L, a, depth + 1)
+    elif isinstance(x, L.Par):
+        for a in (x.values, x.correlations):
+            _scribble(L, a, depth + 1)
+    elif isinstance(x, L.Meas):
+        _scribble(L, x.bitstrings, depth + 1)
+    elif isinstance(x, L.utils.ValueEstimate):
+        x.precision = 77.5
+    elif isinstance(x, L.layouts.CircuitLayers):
+        _scribble(L, x.layers, depth + 1)
+    elif isinstance(x, L.layouts.CircuitConnectivity):
+        _scribble(L, x.connectivity, depth + 1)
+
+
+def _guard(fn):
+    """the value of fn(), or {"exc": ...} when the library raises in a REPEATED call (second load / convert again after
+    the caller overwrote the first results); the oracle reports that with the circumstances"""
+    try:
+        return fn()
+    except Exception as e:
+        return {"exc": f"{type(e).__name__}: {str(e)[:160]}"}
+
+
+def _mk_terms(L, terms):
+    return [L.PauliTerm({int(q): o for q, o in t["ops"]}, dec_coef(t["coef"])) for t in terms]
+
+
+def _input_op(L, c, env):
+    """the operator of an op/text case: new, or (history steps) the previous object changed through its public
+    attributes (`inplace`), or an object DERIVED from the previous one by the library itself (`derive`: copy with new
+    coefficients, simplify(), 1 * op, parsing its printed text, loading its dictionary).  What the step then tests is the
+    state of that object as read from its attributes (out["orig"])."""
+    terms = c["terms"]
+    single = bool(c.get("single"))
+    prev = env.prev.get("op")
+    op = None
+    der = c.get("derive")
+    if prev is not None and (c.get("inplace") or der):
+        pobj, pkeys, psingle = prev
+        same_shape = psingle == single and pkeys == [_key(t["ops"]) for t in terms]
+        if der == "copy" and same_shape:
+            if single:
+                op = pobj.copy(dec_coef(terms[0]["coef"]))
+            else:
+                op = L.PauliSum([t.copy(dec_coef(n["coef"])) for t, n in zip(pobj.terms, terms)])
+        elif der == "simplify" and not single and not psingle:
+            op = pobj.simplify()
+        elif der == "mul1" and single == psingle:
+            op = 1 * pobj
+        elif der == "reparse" and single == psingle:
+            op = L.PauliTerm(str(pobj)) if single else L.PauliSum(str(pobj))
+        elif der == "reload" and not single and not psingle:
+            op = L.opio.convert_dict_to_op(L.opio.convert_op_to_dict(pobj))
+        elif c.get("inplace") and same_shape:
+            for t, n in zip(pobj.terms, terms):
+                t.coefficient = dec_coef(n["coef"])
+            op = pobj
+        elif c.get("inplace") and not single and not psingle and isinstance(pobj.terms, list):
+            pobj.terms[:] = _mk_terms(L, terms)
+            op = pobj
+    if op is None:
+        ts = _mk_terms(L, terms)
+        op = ts[0] if single else L.PauliSum(ts)
+    env.prev["op"] = (op, [_key(t._ops.items()) for t in op.terms], single)
+    return op
+
+
+def _prev_art(L, c, env, kind, loader, accepts_pathlike=False):
+    """the input object a history step starts from: None (build a new one), the previous input object (`inplace`) or
+    the object the library loads from the file of the previous step (`derive` = reload); it is then brought to the
+    step's payload through its public attributes"""
+    if c.get("derive") == "reload" and env.last_path.get(kind) and os.path.exists(env.last_path[kind]):
+        return _load(loader, env.last_path[kind], "path", accepts_pathlike)
+    if c.get("inplace"):
+        return env.prev.get(kind)
+    return None
+
+
+def _set_array(L, obj, attr, new):
+    """obj.attr := new, in place when shapes and kinds allow"""
+    np = L.np
+    old = getattr(obj, attr)
+    if (isinstance(old, np.ndarray) and old.shape == new.shape and old.flags.writeable and old.size
+            and (np.iscomplexobj(old) or not np.iscomplexobj(new)) and old.dtype == new.dtype):
+        old[...] = new
+    else:
+        setattr(obj, attr, new)
+
+
+def _set_list(obj, attr, new):
+    old = getattr(obj, attr)
+    if isinstance(old, list) and isinstance(new, list):
+        old[:] = new
+    else:
+        setattr(obj, attr, new)
+
+
+def _frames_build(L, fr):
+    return None if fr is None else [carr_build(L, a) for a in fr]
+
+
+def _terms_out(op):
+    return [term_canon(t) for t in op.terms]
+
+
 def run_impl(c):
     L = _lib()
+    env = _Env()
+    try:
+        if c["kind"] == "seq":
+            outs = []
+            for st in c["steps"]:
+                try:
+                    outs.append(_run_one(L, st, env))
+                except Exception as e:   # judged by the oracle as a failure of that step
+                    outs.append({"exc": type(e).__name__, "msg": str(e)[:200]})
+            return {"steps": outs}
+        return _run_one(L, c, env)
+    finally:
+        env.close()
+
+
+def _run_one(L, c, env):
     np = L.np
     k = c["kind"]
+    p = env.path_b if c.get("altpath") else env.path_a   # a history step may name the other file
     if k == "op":
-        op = build_op(L, c)
-        orig = [term_canon(t) for t in op.terms]
+        op = _input_op(L, c, env)
+        orig = _terms_out(op)
         d = L.opio.convert_op_to_dict(op)
         out = {"orig": orig, "dict": dict_canon(d)}
         via = c["via"]
-        if via == "dict":
-            d2 = d
-            op2 = L.opio.convert_dict_to_op(d)
-        elif via == "json":
-            d2 = L.rapidjson.loads(L.rapidjson.dumps(d))
-            op2 = L.opio.convert_dict_to_op(d2)
-        else:
-            with _Tmp() as p:
-                L.opio.save_operator(op, p)
-                d2 = _file_json(p)
-                op2 = _load(L.opio.load_operator, p, via)
+
+        def back(dd, v):
+            """(dictionary read, operator loaded) through route v, starting from the library's dictionary dd"""
+            if v == "dict":
+                return dd, L.opio.convert_dict_to_op(dd)
+            if v == "json":
+                d2 = L.rapidjson.loads(L.rapidjson.dumps(dd))
+                return d2, L.opio.convert_dict_to_op(d2)
+            L.opio.save_operator(op, _save_path(p, v))
+            return _file_json(p), _load(L.opio.load_operator, p, "path" if v == "file" else v)
+        d2, op2 = back(d, via)
         out["dict2"] = dict_canon(d2)
-        out["loaded"] = [term_canon(t) for t in op2.terms]
+        out["loaded"] = _terms_out(op2)
         out["loaded_type"] = type(op2).__name__
+        # the same dictionary object converted a second time (dict / json routes), the same file read a second time
+        if via in ("dict", "json"):
+            src = d if via == "dict" else d2
+            out["loaded_again"] = _guard(lambda: _terms_out(L.opio.convert_dict_to_op(src)))
+        else:
+            out["loaded_again"] = _guard(lambda: _terms_out(_load(L.opio.load_operator, p, _other_via(via))))
+        # the dictionaries belong to the caller: overwritten.  The loaded operator is an operator too: one more round
+        # (idempotence on simplified operators); then it is overwritten as well and the ORIGINAL object is converted again
+        _scribble(L, d)
+        _scribble(L, d2)
+        out["loaded_twice"] = _guard(lambda: _terms_out(L.opio.convert_dict_to_op(L.opio.convert_op_to_dict(op2))))
+        _scribble(L, op2)
+        out["loaded_redo"] = _guard(lambda: _terms_out(L.opio.convert_dict_to_op(L.opio.convert_op_to_dict(op))))
         return out
     if k == "opset":
         ops = [build_op(L, {"terms": o}) for o in c["ops"]]
-        with _Tmp() as p:
-            L.opio.save_operator_set(ops, p)
-            data = _file_json(p)
-            ops2 = _load(L.opio.load_operator_set, p, c["via"])
-        return {"orig": [[term_canon(t) for t in o.terms] for o in ops],
-                "dicts": [dict_canon(d) for d in data["operators"]],
-                "loaded": [[term_canon(t) for t in o.terms] for o in ops2]}
+        via = c["via"]
+        L.opio.save_operator_set(ops, _save_path(p, via))
+        data = _file_json(p)
+        ops2 = _load(L.opio.load_operator_set, p, "path" if via == "file" else via)
+        out = {"orig": [_terms_out(o) for o in ops],
+               "dicts": [dict_canon(d) for d in data["operators"]],
+               "loaded": [_terms_out(o) for o in ops2]}
+        _scribble(L, ops2)
+        out["loaded_again"] = _guard(lambda: [_terms_out(o) for o in _load(L.opio.load_operator_set, p, _other_via(via))])
+        return out
     if k == "text":
-        op = build_op(L, c)
+        op = _input_op(L, c, env)
         text = str(op)
-        out = {"orig": [term_canon(t) for t in op.terms], "text": text,
+        out = {"orig": _terms_out(op), "text": text,
                "coef_texts": [str(t.coefficient) for t in op.terms],
                "coef_vals": [[_num(complex(t.coefficient).real), _num(complex(t.coefficient).imag)] for t in op.terms]}
-        try:
-            if c.get("single"):
-                back = L.PauliTerm(text)
-                out["parsed"] = [term_canon(back)]
-            else:
-                back = L.PauliSum(text)
-                out["parsed"] = [term_canon(t) for t in back.terms]
-        except ValueError as e:
-            out["parsed"] = "err:value"
-            out["msg"] = str(e)[:120]
+
+        def parse(tx, as_term):
+            try:
+                if as_term:
+                    back = L.PauliTerm(tx)
+                    return back, [term_canon(back)], None
+                back = L.PauliSum(tx)
+                return back, _terms_out(back), None
+            except ValueError as e:
+                return None, "err:value", str(e)[:120]
+        single = bool(c.get("single"))
+        back, out["parsed"], msg = parse(text, single)
+        if msg is not None:
+            out["msg"] = msg
+        if len(c["terms"]) == 1:
+            # one printed term is also a printed sum and vice versa
+            _b, out["parsed_other"], _m = parse(text, not single)
+        _scribble(L, back)
+        text2 = _guard(lambda: str(op))
+        out["text_again"] = text2
+        if isinstance(text2, str):
+            _b, out["parsed_again"], _m = parse(text2, single)
+        else:
+            out["parsed_again"] = text2
         return out
     if k == "parse":
         try:
@@ -535,107 +1661,225 @@ def run_impl(c):
             return {"loaded": [term_canon(t) for t in op2.terms]}
         except ValueError as e:
             return {"loaded": "err:value", "msg": str(e)[:120]}
+    via = c.get("via", "path")
     if k == "ev":
-        corr = None if c["correlations"] is None else [carr_build(L, a) for a in c["correlations"]]
-        cov = None if c["covariances"] is None else [carr_build(L, a) for a in c["covariances"]]
-        ev = L.EV(carr_build(L, c["values"]), corr, cov)
-        with _Tmp() as p:
-            L.evm.save_expectation_values(ev, p)
-            data = _file_json(p)
-            ev2 = _load(L.evm.load_expectation_values, p, c["via"])
+        vals, corr, cov = carr_build(L, c["values"]), _frames_build(L, c["correlations"]), _frames_build(L, c["covariances"])
+        ev = _prev_art(L, c, env, "ev", L.evm.load_expectation_values, True)
+        if ev is None:
+            ev = L.EV(vals, corr, cov)
+        else:
+            _set_array(L, ev, "values", vals)
+            _set_list(ev, "correlations", corr)
+            _set_list(ev, "estimator_covariances", cov)
+        env.prev["ev"] = ev
+        env.last_path["ev"] = p
+        L.evm.save_expectation_values(ev, _save_path(p, via))
+        data = _file_json(p)
+
+        def obs(ev2):
+            return {"values": carr_canon(L, ev2.values), "correlations": frames_canon(L, ev2.correlations),
+                    "covariances": frames_canon(L, ev2.estimator_covariances)}
+        ev2 = _load(L.evm.load_expectation_values, p, via, True)
         fd = {"frames": data.get("frames"), "expectation_values": arrdict_canon(data["expectation_values"])}
         for key in ("correlations", "estimator_covariances"):
             if key in data:
                 fd[key] = [arrdict_canon(x) for x in data[key]]
-        return {"file": fd, "loaded": {"values": carr_canon(L, ev2.values), "correlations": frames_canon(L, ev2.correlations),
-                                       "covariances": frames_canon(L, ev2.estimator_covariances)},
-                "orig": {"values": carr_canon(L, ev.values), "correlations": frames_canon(L, ev.correlations),
-                         "covariances": frames_canon(L, ev.estimator_covariances)}}
+        out = {"file": fd, "loaded": obs(ev2), "orig": obs(ev)}
+        _scribble(L, ev2)
+        out["again"] = [_guard(lambda: {"loaded": obs(_load(L.evm.load_expectation_values, p, _other_via(via), True))})]
+        # the dictionary form, converted back twice from the same dictionary object
+        dd = ev.to_dict()
+        first = L.EV.from_dict(dd)
+        _scribble(L, first)
+        out["again"].append(_guard(lambda: {"loaded": obs(L.EV.from_dict(dd))}))
+        return out
     if k == "par":
-        corr = None if c["correlations"] is None else [carr_build(L, a) for a in c["correlations"]]
-        par = L.Par(carr_build(L, c["values"]), corr)
-        with _Tmp() as p:
-            L.parm.save_parities(par, p)
-            data = _file_json(p)
-            par2 = _load(L.parm.load_parities, p, c["via"])
+        vals, corr = carr_build(L, c["values"]), _frames_build(L, c["correlations"])
+        par = _prev_art(L, c, env, "par", L.parm.load_parities, True)
+        if par is None:
+            par = L.Par(vals, corr)
+        else:
+            _set_array(L, par, "values", vals)
+            _set_list(par, "correlations", corr)
+        env.prev["par"] = par
+        env.last_path["par"] = p
+        L.parm.save_parities(par, _save_path(p, via))
+        data = _file_json(p)
+
+        def obs(par2):
+            return {"loaded": {"values": carr_canon(L, par2.values), "correlations": frames_canon(L, par2.correlations)},
+                    "int_kept": bool(np.issubdtype(par2.values.dtype, np.integer)) == bool(np.issubdtype(par.values.dtype, np.integer))}
+        par2 = _load(L.parm.load_parities, p, via, True)
         fd = {"values": arrdict_canon(data["values"])}
         if "correlations" in data:
             fd["correlations"] = [arrdict_canon(x) for x in data["correlations"]]
-        return {"file": fd, "loaded": {"values": carr_canon(L, par2.values), "correlations": frames_canon(L, par2.correlations)},
-                "orig": {"values": carr_canon(L, par.values), "correlations": frames_canon(L, par.correlations)},
-                "int_kept": bool(np.issubdtype(par2.values.dtype, np.integer)) == bool(np.issubdtype(par.values.dtype, np.integer))}
+        out = dict(obs(par2), file=fd, orig={"values": carr_canon(L, par.values), "correlations": frames_canon(L, par.correlations)})
+        _scribble(L, par2)
+        out["again"] = [_guard(lambda: obs(_load(L.parm.load_parities, p, _other_via(via), True)))]
+        dd = par.to_dict()
+        first = L.Par.from_dict(dd)
+        _scribble(L, first)
+        out["again"].append(_guard(lambda: obs(L.Par.from_dict(dd))))
+        return out
     if k == "ve":
         val = float(unrat(c["value"]))
         prec = None if c["precision"] is None else float(unrat(c["precision"]))
         if c.get("np"):
             val = np.float64(val)
             prec = None if prec is None else np.float64(prec)
-        ve = L.utils.ValueEstimate(val, prec)
-        with _Tmp() as p:
-            L.utils.save_value_estimate(ve, p)
-            data = _file_json(p)
-            ve2 = _load(L.utils.load_value_estimate, p, c["via"])
+        ve = _prev_art(L, c, env, "ve", L.utils.load_value_estimate)
+        if ve is not None and float(ve) == float(val) and math.copysign(1, float(ve)) == math.copysign(1, float(val)):
+            ve.precision = prec
+        else:
+            ve = L.utils.ValueEstimate(val, prec)
+        env.prev["ve"] = ve
+        env.last_path["ve"] = p
+        L.utils.save_value_estimate(ve, _save_path(p, via))
+        data = _file_json(p)
+
+        def obs(ve2):
+            return {"loaded": {"value": _num(float(ve2)), "precision": None if ve2.precision is None else _num(ve2.precision)},
+                    "eq": bool(ve2 == ve), "type_ok": isinstance(ve2, L.utils.ValueEstimate)}
+        ve2 = _load(L.utils.load_value_estimate, p, via)
         fd = {"value": _num(data["value"])}
         if "precision" in data:
             fd["precision"] = None if data["precision"] is None else _num(data["precision"])
-        return {"file": fd, "loaded": {"value": _num(float(ve2)), "precision": None if ve2.precision is None else _num(ve2.precision)},
-                "eq": bool(ve2 == ve), "type_ok": isinstance(ve2, L.utils.ValueEstimate)}
+        out = dict(obs(ve2), file=fd)
+        _scribble(L, ve2)
+        out["again"] = [_guard(lambda: obs(_load(L.utils.load_value_estimate, p, _other_via(via))))]
+        dd = ve.to_dict()
+        first = L.utils.ValueEstimate.from_dict(dd)
+        _scribble(L, first)
+        out["again"].append(_guard(lambda: obs(L.utils.ValueEstimate.from_dict(dd))))
+        return out
     if k == "meas":
-        if c.get("np"):
+        if c.get("np") in (True, "int8"):
             bs = [tuple(np.int8(b) for b in t) for t in c["bitstrings"]]
+        elif c.get("np") == "bool":
+            bs = [tuple(bool(b) for b in t) for t in c["bitstrings"]]
         else:
             bs = [tuple(t) for t in c["bitstrings"]]
-        m = L.Meas(list(bs))
-        with _Tmp() as p:
-            m.save(p)
-            data = _file_json(p)
-            m2 = _load(L.Meas.load_from_file, p, c["via"])
-        return {"file": {"counts": [[kk, v] for kk, v in data["counts"].items()], "bitstrings": data["bitstrings"]},
-                "loaded": [[int(b) for b in t] for t in m2.bitstrings],
-                "tuples": all(isinstance(t, tuple) for t in m2.bitstrings),
-                "eq": [tuple(int(b) for b in t) for t in m2.bitstrings] == [tuple(int(b) for b in t) for t in bs] and isinstance(m2.bitstrings, list)}
+        want = [tuple(int(b) for b in t) for t in c["bitstrings"]]
+        m = _prev_art(L, c, env, "meas", L.Meas.load_from_file)
+        if m is None:
+            m = L.Meas(list(bs))
+        else:
+            _set_list(m, "bitstrings", list(bs))
+        env.prev["meas"] = m
+        env.last_path["meas"] = p
+        m.save(_save_path(p, via))
+        data = _file_json(p)
+
+        def obs(m2):
+            return {"loaded": [[int(b) for b in t] for t in m2.bitstrings],
+                    "tuples": all(isinstance(t, tuple) for t in m2.bitstrings),
+                    "eq": ([tuple(int(b) for b in t) for t in m2.bitstrings] == want and isinstance(m2.bitstrings, list)
+                           and list(m2.bitstrings) == list(m.bitstrings))}
+        m2 = _load(L.Meas.load_from_file, p, via)
+        out = dict(obs(m2), file={"counts": [[kk, v] for kk, v in data["counts"].items()], "bitstrings": data["bitstrings"]})
+        _scribble(L, m2)
+        out["again"] = [_guard(lambda: obs(_load(L.Meas.load_from_file, p, _other_via(via))))]
+        return out
     if k == "list":
         lst = _unrat_list(c["list"])
-        with _Tmp() as p:
-            L.utils.save_list(lst, p)
-            l2 = _load(L.utils.load_list, p, c["via"])
-        return {"eq": l2 == lst and _same_types(l2, lst)}
+        want = _unrat_list(c["list"])
+        cur = _prev_art(L, c, env, "list", L.utils.load_list)
+        if cur is None:
+            cur = lst
+        else:
+            cur[:] = lst
+        env.prev["list"] = cur
+        env.last_path["list"] = p
+        L.utils.save_list(cur, _save_path(p, via))
+        l2 = _load(L.utils.load_list, p, via)
+        out = {"eq": l2 == want and _same_types(l2, want) and l2 == cur}
+        _scribble(L, l2)
+        def again():
+            l3 = _load(L.utils.load_list, p, _other_via(via))
+            return {"eq": l3 == want and _same_types(l3, want) and l3 == cur}
+        out["again"] = [_guard(again)]
+        return out
     if k == "layers":
         layers = [[tuple(x) for x in layer] for layer in c["layers"]]
-        with _Tmp() as p:
-            L.layouts.save_circuit_layers(L.layouts.CircuitLayers(layers), p)
-            l2 = _load(L.layouts.load_circuit_layers, p, c["via"])
-        return {"eq": l2.layers == layers, "tuples": all(isinstance(x, tuple) for layer in l2.layers for x in layer),
-                "loaded": [[list(x) for x in layer] for layer in l2.layers]}
+        want = [[tuple(x) for x in layer] for layer in c["layers"]]
+        obj = _prev_art(L, c, env, "layers", L.layouts.load_circuit_layers)
+        if obj is None:
+            obj = L.layouts.CircuitLayers(layers)
+        else:
+            _set_list(obj, "layers", layers)
+        env.prev["layers"] = obj
+        env.last_path["layers"] = p
+        L.layouts.save_circuit_layers(obj, _save_path(p, via))
+
+        def obs(l2):
+            return {"eq": l2.layers == want and l2.layers == obj.layers, "tuples": all(isinstance(x, tuple) for layer in l2.layers for x in layer),
+                    "loaded": [[list(x) for x in layer] for layer in l2.layers]}
+        l2 = _load(L.layouts.load_circuit_layers, p, via)
+        out = obs(l2)
+        _scribble(L, l2)
+        out["again"] = [_guard(lambda: obs(_load(L.layouts.load_circuit_layers, p, _other_via(via))))]
+        return out
     if k == "conn":
         conn = [tuple(x) for x in c["connectivity"]]
-        with _Tmp() as p:
-            L.layouts.save_circuit_connectivity(L.layouts.CircuitConnectivity(conn), p)
-            c2 = _load(L.layouts.load_circuit_connectivity, p, c["via"])
-        return {"eq": c2.connectivity == conn, "tuples": all(isinstance(x, tuple) for x in c2.connectivity),
-                "loaded": [list(x) for x in c2.connectivity]}
+        want = [tuple(x) for x in c["connectivity"]]
+        obj = _prev_art(L, c, env, "conn", L.layouts.load_circuit_connectivity)
+        if obj is None:
+            obj = L.layouts.CircuitConnectivity(conn)
+        else:
+            _set_list(obj, "connectivity", conn)
+        env.prev["conn"] = obj
+        env.last_path["conn"] = p
+        L.layouts.save_circuit_connectivity(obj, _save_path(p, via))
+
+        def obs(c2):
+            return {"eq": c2.connectivity == want and c2.connectivity == obj.connectivity, "tuples": all(isinstance(x, tuple) for x in c2.connectivity),
+                    "loaded": [list(x) for x in c2.connectivity]}
+        c2 = _load(L.layouts.load_circuit_connectivity, p, via)
+        out = obs(c2)
+        _scribble(L, c2)
+        out["again"] = [_guard(lambda: obs(_load(L.layouts.load_circuit_connectivity, p, _other_via(via))))]
+        return out
     if k == "ordering":
-        with _Tmp() as p:
-            L.layouts.save_circuit_ordering(list(c["ordering"]), p)
-            o2 = _load(L.layouts.load_circuit_ordering, p, c["via"])
-        return {"eq": o2 == c["ordering"]}
+        want = list(c["ordering"])
+        cur = _prev_art(L, c, env, "ordering", L.layouts.load_circuit_ordering)
+        if cur is None:
+            cur = list(c["ordering"])
+        else:
+            cur[:] = list(c["ordering"])
+        env.prev["ordering"] = cur
+        env.last_path["ordering"] = p
+        L.layouts.save_circuit_ordering(cur, _save_path(p, via))
+        o2 = _load(L.layouts.load_circuit_ordering, p, via)
+        out = {"eq": o2 == want and _same_types(o2, want) and o2 == cur}
+        _scribble(L, o2)
+        def again():
+            o3 = _load(L.layouts.load_circuit_ordering, p, _other_via(via))
+            return {"eq": o3 == want and _same_types(o3, want) and o3 == cur}
+        out["again"] = [_guard(again)]
+        return out
     if k == "nmeas":
         fm = None if c["frame_meas"] is None else carr_build(L, c["frame_meas"])
         K = float(unrat(c["K"]))
-        with _Tmp() as p:
-            if fm is None:
-                L.utils.save_nmeas_estimate(K, c["nterms"], p)
-            else:
-                L.utils.save_nmeas_estimate(K, c["nterms"], p, fm)
-            data = _file_json(p)
-            fd = {"K": _num(data["K"]), "nterms": data["nterms"]}
-            if "frame_meas" in data:
-                fd["frame_meas"] = arrdict_canon(data["frame_meas"])
+        if fm is None:
+            L.utils.save_nmeas_estimate(K, c["nterms"], p)
+        else:
+            L.utils.save_nmeas_estimate(K, c["nterms"], p, fm)
+        data = _file_json(p)
+        fd = {"K": _num(data["K"]), "nterms": data["nterms"]}
+        if "frame_meas" in data:
+            fd["frame_meas"] = arrdict_canon(data["frame_meas"])
+
+        def obs():
             try:
                 K2, n2, fm2 = L.utils.load_nmeas_estimate(p)
             except KeyError as e:
-                return {"file": fd, "loaded": "err:key", "msg": str(e)[:80]}
-        return {"file": fd, "loaded": {"K": _num(K2), "nterms": n2, "frame_meas": None if fm2 is None else carr_canon(L, fm2)}}
+                return {"loaded": "err:key", "msg": str(e)[:80]}, None
+            return {"loaded": {"K": _num(K2), "nterms": n2, "frame_meas": None if fm2 is None else carr_canon(L, fm2)}}, fm2
+        o1, fm2 = obs()
+        out = dict(o1, file=fd)
+        _scribble(L, fm2)
+        out["again"] = [_guard(lambda: obs()[0])]
+        return out
     raise AssertionError("unknown kind " + str(k))
 
 
@@ -658,13 +1902,39 @@ def _model_terms(orig):
     return [{"ops": t["ops"], "coef": t["coef"]} for t in orig]
 
 
+def _sums_exact(terms):
+    """the left-to-right float sums of like terms are exact (the model adds rationals; see TRUSTED)"""
+    acc = {}
+    for t in terms:
+        key = tuple(sorted((int(q), o) for q, o in t["ops"]))
+        re, im = unrat(t["coef"]["re"]), unrat(t["coef"]["im"])
+        if key not in acc:
+            acc[key] = (re, im)
+            continue
+        a = acc[key]
+        for x, y in ((a[0], re), (a[1], im)):
+            if Fraction(float(x) + float(y)) != x + y:
+                return False
+        acc[key] = (a[0] + re, a[1] + im)
+    return True
+
+
 def requests(c, out):
     k = c["kind"]
     if "exc" in out:
         return []
+    if k == "seq":
+        rs = []
+        for st, o in zip(c["steps"], out["steps"]):
+            rs += requests(st, o)
+        return rs
     if k == "op":
+        if not _sums_exact(out["orig"]):
+            return []
         return [("op_to_dict", {"terms": _model_terms(out["orig"])}), ("dict_to_op", {"dict": out["dict2"]})]
     if k == "opset":
+        if not all(_sums_exact(o) for o in out["orig"]):
+            return []
         return [("op_to_dict", {"terms": _model_terms(o)}) for o in out["orig"]] + [("dict_set_to_ops", {"dicts": out["dicts"]})]
     if k == "text":
         rs = [("repr", {"terms": [{"ops": t["ops"], "text": tx} for t, tx in zip(out["orig"], out["coef_texts"])],
@@ -714,9 +1984,9 @@ def _norm(j):
 
 
 def _strip_int(x):
-    """drop the generator's 'int' marker from array encodings"""
+    """drop the generator's markers (int / dtype / layout) from array encodings"""
     if isinstance(x, dict):
-        return {k: _strip_int(v) for k, v in x.items() if k != "int"}
+        return {k: _strip_int(v) for k, v in x.items() if k not in ("int", "dtype", "layout")}
     if isinstance(x, list):
         return [_strip_int(v) for v in x]
     return x
@@ -772,6 +2042,16 @@ def compare(c, out, resp):
         if isinstance(r, dict) and "driver_error" in r:
             return "driver error: " + r["driver_error"]
     k = c["kind"]
+    if k == "seq":
+        i = 0
+        for n, (st, o) in enumerate(zip(c["steps"], out["steps"])):
+            m = len(requests(st, o))
+            if m:
+                msg = compare(st, o, resp[i:i + m])
+                if msg:
+                    return f"step {n} of the history: {msg}"
+            i += m
+        return None
     if k == "op":
         if _dict_norm(resp[0]) != _dict_norm(out["dict"]):
             return f"convert_op_to_dict: impl {out['dict']} model {resp[0]}"
@@ -904,99 +2184,193 @@ def _carr_eq(a, b):
     return _norm(za) == _norm(zb)
 
 
+_WHICH = {"loaded": "", "loaded_again": " (the same dictionary converted / the same file loaded a second time)",
+          "loaded_redo": " (the same operator converted again after the caller overwrote the first results)",
+          "parsed": "", "parsed_other": " (a printed single term read by the sum parser)",
+          "parsed_again": " (printed and parsed again after the caller overwrote the first parse result)"}
+
+
+def _want_arr(e):
+    return _strip_int(e)
+
+
 def oracle(c, out):
+    """None or (signature, message).  A history (`seq`) is judged step by step with the oracle of the step's kind; a
+    failure of a later step carries the prefix `hist-` (the same input passes or fails differently without the history)."""
+    if c["kind"] != "seq":
+        return _oracle_one(c, out)
+    if "exc" in out:
+        return ("raised-seq", f"history raised {out['exc']}: {out.get('msg', '')}")
+    for i, (st, o) in enumerate(zip(c["steps"], out["steps"])):
+        r = _oracle_one(st, o)
+        if r is not None:
+            how = (f"on an object derived from the previous one by the library ({st['derive']})" if st.get("derive") else
+                   "on the previous object changed in place through its public attributes" if st.get("inplace") else "on a new object")
+            if i == 0:
+                return r
+            return ("hist-" + r[0], f"step {i} of a history (same file name; {how}; {len(c['steps'])} steps): {r[1]}")
+    return None
+
+
+_REPEAT = ("the library raised when the call was REPEATED (the same dictionary / file / object once more, after the caller had "
+           "overwritten the objects returned by the first call)")
+
+
+def _oracle_one(c, out):
     k = c["kind"]
     if "exc" in out:
         return ("raised-" + k, f"{k} round trip raised {out['exc']}: {out.get('msg', '')}")
+    for name in ("loaded_again", "loaded_twice", "loaded_redo", "parsed_again"):
+        if isinstance(out.get(name), dict) and "exc" in out[name]:
+            return ("repeat-raised-" + k, f"{k} ({c.get('via', 'text')}), {name}: {_REPEAT}: {out[name]['exc']}")
+    for j, ob in enumerate(out.get("again", [])):
+        if isinstance(ob, dict) and "exc" in ob:
+            return ("repeat-raised-" + k, f"{k} ({c.get('via', '')}), observation {j + 1}: {_REPEAT}: {ob['exc']}")
     if k == "op":
         n = max(1, len(out["orig"]))
-        msg = _same_operator(out["orig"], out["loaded"], 1e-8 * n, 1e-12)
-        if msg:
-            return ("op-dict-matrix", f"dict/file round trip ({c['via']}) changed the operator: {msg}")
-        if _simplified(out["orig"]):
-            msg = _exact_terms(out["orig"], out["loaded"])
+        for name in ("loaded", "loaded_again", "loaded_redo"):
+            if name not in out:
+                continue
+            msg = _same_operator(out["orig"], out[name], 1e-8 * n, 1e-12)
             if msg:
-                return ("op-dict-exact", f"simplified operator not preserved exactly through {c['via']}: {msg}")
+                return ("op-dict-matrix", f"dict/file round trip ({c['via']}){_WHICH[name]} changed the operator: {msg}")
+            if _simplified(out["orig"]):
+                msg = _exact_terms(out["orig"], out[name])
+                if msg:
+                    return ("op-dict-exact", f"simplified operator not preserved exactly through {c['via']}{_WHICH[name]}: {msg}")
         if out["loaded_type"] != "PauliSum":
             return ("op-dict-type", f"loaded object is a {out['loaded_type']}")
-    elif k == "opset":
-        if len(out["orig"]) != len(out["loaded"]):
-            return ("opset-length", f"{len(out['orig'])} operators saved, {len(out['loaded'])} loaded")
-        for i, (a, b) in enumerate(zip(out["orig"], out["loaded"])):
-            msg = _same_operator(a, b, 1e-8 * max(1, len(a)), 1e-12)
+        if "loaded_twice" in out and _simplified(out["loaded"]):
+            msg = _exact_terms(out["loaded"], out["loaded_twice"])
             if msg:
-                return ("opset-matrix", f"operator {i} of the list changed: {msg}")
-            if _simplified(a):
-                msg = _exact_terms(a, b)
+                return ("op-dict-exact", f"the loaded (simplified) operator is not preserved exactly by one more dict round trip: {msg}")
+    elif k == "opset":
+        for name in ("loaded", "loaded_again"):
+            if name not in out:
+                continue
+            if len(out["orig"]) != len(out[name]):
+                return ("opset-length", f"{len(out['orig'])} operators saved, {len(out[name])} loaded{_WHICH[name]}")
+            for i, (a, b) in enumerate(zip(out["orig"], out[name])):
+                msg = _same_operator(a, b, 1e-8 * max(1, len(a)), 1e-12)
                 if msg:
-                    return ("opset-exact", f"simplified operator {i} of the list not preserved exactly: {msg}")
+                    return ("opset-matrix", f"operator {i} of the list changed{_WHICH[name]}: {msg}")
+                if _simplified(a):
+                    msg = _exact_terms(a, b)
+                    if msg:
+                        return ("opset-exact", f"simplified operator {i} of the list not preserved exactly{_WHICH[name]}: {msg}")
     elif k == "text":
-        if isinstance(out["parsed"], str):
-            return ("text-rejected", f"printed text {out['text']!r} is rejected by the parser: {out.get('msg')}")
-        msg = _same_operator(out["orig"], out["parsed"], 0.0, 1e-12)
-        if msg:
-            return ("text-matrix", f"str -> parse changed the operator {out['text']!r}: {msg}")
+        for name in ("parsed", "parsed_other", "parsed_again"):
+            if name not in out or (name == "parsed_other" and not c.get("single")):
+                continue
+            text = out["text_again"] if name == "parsed_again" else out["text"]
+            if isinstance(out[name], str):
+                return ("text-rejected", f"printed text {text!r} is rejected by the parser{_WHICH[name]}: {out.get('msg')}")
+            msg = _same_operator(out["orig"], out[name], 0.0, 1e-12)
+            if msg:
+                return ("text-matrix", f"str -> parse changed the operator {text!r}{_WHICH[name]}: {msg}")
     elif k == "ev":
-        o, l = out["orig"], out["loaded"]
-        if not _carr_eq(o["values"], l["values"]):
-            return ("ev-values", f"expectation values {o['values']} loaded as {l['values']}")
-        for key in ("correlations", "covariances"):
-            if o[key] == [] and l[key] is None:
-                return ("empty-frame-list", f"ExpectationValues.{key} = [] (zero frames) is loaded as None")
-            if not _frames_eq(o[key], l[key]):
-                return ("ev-" + key, f"{key} {o[key]} loaded as {l[key]}")
+        o = out["orig"]
+        want = {"values": _want_arr(c["values"]), "correlations": _want_arr(c["correlations"]), "covariances": _want_arr(c["covariances"])}
+        for j, ob in enumerate([out] + out.get("again", [])):
+            l = ob["loaded"]
+            rep = "" if j == 0 else (" (second load, after the caller overwrote the first result)" if j == 1 else " (to_dict -> from_dict twice on one dictionary)")
+            for ref in (o, want):
+                if not _carr_eq(ref["values"], l["values"]):
+                    return ("ev-values", f"expectation values {ref['values']} loaded as {l['values']}{rep}")
+                for key in ("correlations", "covariances"):
+                    if ref[key] == [] and l[key] is None:
+                        return ("empty-frame-list", f"ExpectationValues.{key} = [] (zero frames) is loaded as None{rep}")
+                    if not _frames_eq(ref[key], l[key]):
+                        return ("ev-" + key, f"{key} {ref[key]} loaded as {l[key]}{rep}")
     elif k == "par":
-        o, l = out["orig"], out["loaded"]
-        if not _carr_eq(o["values"], l["values"]) or not out["int_kept"]:
-            return ("par-values", f"parity values {o['values']} loaded as {l['values']} (integer dtype kept: {out['int_kept']})")
-        if o["correlations"] == [] and l["correlations"] is None:
-            return ("empty-frame-list", "Parities.correlations = [] (zero frames) is loaded as None")
-        if not _frames_eq(o["correlations"], l["correlations"]):
-            return ("par-correlations", f"correlations {o['correlations']} loaded as {l['correlations']}")
+        o = out["orig"]
+        want = {"values": _want_arr(c["values"]), "correlations": _want_arr(c["correlations"])}
+        for j, ob in enumerate([out] + out.get("again", [])):
+            l = ob["loaded"]
+            rep = "" if j == 0 else (" (second load, after the caller overwrote the first result)" if j == 1 else " (to_dict -> from_dict twice on one dictionary)")
+            for ref in (o, want):
+                if not _carr_eq(ref["values"], l["values"]) or not ob["int_kept"]:
+                    return ("par-values", f"parity values {ref['values']} loaded as {l['values']} (integer dtype kept: {ob['int_kept']}){rep}")
+                if ref["correlations"] == [] and l["correlations"] is None:
+                    return ("empty-frame-list", f"Parities.correlations = [] (zero frames) is loaded as None{rep}")
+                if not _frames_eq(ref["correlations"], l["correlations"]):
+                    return ("par-correlations", f"correlations {ref['correlations']} loaded as {l['correlations']}{rep}")
     elif k == "ve":
         want_p = None if c["precision"] is None else unrat(c["precision"])
-        got_p = None if out["loaded"]["precision"] is None else unrat(out["loaded"]["precision"])
-        if unrat(out["loaded"]["value"]) != unrat(c["value"]) or want_p != got_p or not out["eq"] or not out["type_ok"]:
-            return ("value-estimate", f"ValueEstimate({c['value']}, {c['precision']}) loaded as {out['loaded']} (==: {out['eq']})")
+        for j, ob in enumerate([out] + out.get("again", [])):
+            got_p = None if ob["loaded"]["precision"] is None else unrat(ob["loaded"]["precision"])
+            if unrat(ob["loaded"]["value"]) != unrat(c["value"]) or want_p != got_p or not ob["eq"] or not ob["type_ok"]:
+                return ("value-estimate", f"ValueEstimate({c['value']}, {c['precision']}) loaded as {ob['loaded']} (==: {ob['eq']}; observation {j})")
     elif k == "meas":
-        if not out["eq"] or not out["tuples"]:
-            return ("measurements", f"bitstrings {c['bitstrings']} loaded as {out['loaded']} (tuples: {out['tuples']})")
+        for j, ob in enumerate([out] + out.get("again", [])):
+            if not ob["eq"] or not ob["tuples"]:
+                return ("measurements", f"bitstrings {_brief(c['bitstrings'])} loaded as {_brief(ob['loaded'])} (tuples: {ob['tuples']}; observation {j})")
     elif k == "list":
-        if not out["eq"]:
-            return ("list", f"list {c['list']} not returned equal")
+        for j, ob in enumerate([out] + out.get("again", [])):
+            if not ob["eq"]:
+                return ("list", f"list {_brief(c['list'])} not returned equal (observation {j})")
     elif k == "layers":
-        if not out["eq"] or not out["tuples"]:
-            return ("layers", f"layers {c['layers']} loaded as {out['loaded']} (tuples: {out['tuples']})")
+        for j, ob in enumerate([out] + out.get("again", [])):
+            if not ob["eq"] or not ob["tuples"]:
+                return ("layers", f"layers {_brief(c['layers'])} loaded as {_brief(ob['loaded'])} (tuples: {ob['tuples']}; observation {j})")
     elif k == "conn":
-        if not out["eq"] or not out["tuples"]:
-            return ("connectivity", f"connectivity {c['connectivity']} loaded as {out['loaded']} (tuples: {out['tuples']})")
+        for j, ob in enumerate([out] + out.get("again", [])):
+            if not ob["eq"] or not ob["tuples"]:
+                return ("connectivity", f"connectivity {_brief(c['connectivity'])} loaded as {_brief(ob['loaded'])} (tuples: {ob['tuples']}; observation {j})")
     elif k == "ordering":
-        if not out["eq"]:
-            return ("ordering", f"ordering {c['ordering']} not returned equal")
+        for j, ob in enumerate([out] + out.get("again", [])):
+            if not ob["eq"]:
+                return ("ordering", f"ordering {_brief(c['ordering'])} not returned equal (observation {j})")
     elif k == "nmeas":
-        if out["loaded"] == "err:key":
-            if c["frame_meas"] is None:
-                return ("nmeas-without-frame-meas", "save_nmeas_estimate(nmeas, nterms, file) with the default frame_meas=None writes a "
-                        "file that load_nmeas_estimate rejects with KeyError('frame_meas')")
-            return ("nmeas-raise", f"load_nmeas_estimate raised KeyError {out.get('msg')}")
-        l = out["loaded"]
-        if c["frame_meas"] is None or l["frame_meas"] is None:
-            fm_ok = c["frame_meas"] is None and l["frame_meas"] is None
-        else:
-            fm_ok = _carr_eq(_strip_int(c["frame_meas"]), l["frame_meas"])
-        if unrat(l["K"]) != unrat(c["K"]) or l["nterms"] != c["nterms"] or type(l["nterms"]) is not int or not fm_ok:
-            return ("nmeas", f"nmeas estimate ({c['K']}, {c['nterms']}, {c['frame_meas']}) loaded as {l}")
+        for j, ob in enumerate([out] + out.get("again", [])):
+            if ob["loaded"] == "err:key":
+                if c["frame_meas"] is None:
+                    return ("nmeas-without-frame-meas", "save_nmeas_estimate(nmeas, nterms, file) with the default frame_meas=None writes a "
+                            "file that load_nmeas_estimate rejects with KeyError('frame_meas')")
+                return ("nmeas-raise", f"load_nmeas_estimate raised KeyError {ob.get('msg')}")
+            l = ob["loaded"]
+            if c["frame_meas"] is None or l["frame_meas"] is None:
+                fm_ok = c["frame_meas"] is None and l["frame_meas"] is None
+            else:
+                fm_ok = _carr_eq(_strip_int(c["frame_meas"]), l["frame_meas"])
+            if unrat(l["K"]) != unrat(c["K"]) or l["nterms"] != c["nterms"] or type(l["nterms"]) is not int or not fm_ok:
+                return ("nmeas", f"nmeas estimate ({c['K']}, {c['nterms']}, {c['frame_meas']}) loaded as {l} (observation {j})")
     return None
+
+
+def _brief(x, n=300):
+    s = str(x)
+    return s if len(s) <= n else s[:n] + "…"
+
+
+def _flat(cases, outs):
+    """histories expanded into their steps (for the distribution counts)"""
+    for c, o in zip(cases, outs):
+        if isinstance(c, dict) and c.get("kind") == "seq" and isinstance(o, dict) and "steps" in o:
+            for st, so in zip(c["steps"], o["steps"]):
+                yield st, so
+        else:
+            yield c, o
 
 
 def distribution(cases, outs):
     kinds = {"int": 0, "float": 0, "complex": 0}
     neg_zero = exp_fmt = multi_digit = constants = merged = rejected = 0
+    hist = {"histories": 0, "steps": 0, "inplace_steps": 0, "derived_steps": 0}
+    for c in cases:
+        if c.get("kind") == "seq":
+            hist["histories"] += 1
+            hist["steps"] += len(c["steps"])
+            hist["inplace_steps"] += sum(1 for st in c["steps"] if st.get("inplace"))
+            hist["derived_steps"] += sum(1 for st in c["steps"] if st.get("derive"))
+    flat = list(_flat(cases, outs))
+    cases = [c for c, _ in flat]
+    outs = [o for _, o in flat]
     for c, o in zip(cases, outs):
         if c["kind"] in ("op", "text"):
             for t in c["terms"]:
                 kinds[t["coef"]["t"]] += 1
-                v = dec_coef(t["coef"])
+                v = dec_py(t["coef"])
                 if "e" in repr(v):
                     exp_fmt += 1
                 if "-0" in repr(v) and (v == 0 or (isinstance(v, complex) and (v.real == 0 or v.imag == 0))):
@@ -1011,5 +2385,10 @@ def distribution(cases, outs):
             rejected += 1
     return {"coefficient_kinds": kinds, "negative_zero_coefficients": neg_zero, "exponent_format_coefficients": exp_fmt,
             "terms_with_multi_digit_qubit": multi_digit, "constant_terms": constants,
-            "operators_merged_or_dropped_terms": merged, "rejected_inputs": rejected,
-            "via": {v: sum(1 for c in cases if c.get("via") == v) for v in ("dict", "json", "file", "fileobj", "path")}}
+            "operators_merged_or_dropped_terms": merged, "rejected_inputs": rejected, "histories": hist,
+            "numpy_typed_coefficients": sum(1 for c in cases if c["kind"] in ("op", "text") for t in c["terms"] if t["coef"].get("np")),
+            "largest": {"terms": max([len(c["terms"]) for c in cases if c["kind"] in ("op", "text")] + [0]),
+                        "operators_in_a_set": max([len(c["ops"]) for c in cases if c["kind"] == "opset"] + [0]),
+                        "shots": max([len(c["bitstrings"]) for c in cases if c["kind"] == "meas"] + [0]),
+                        "register_width": max([len(c["bitstrings"][0]) for c in cases if c["kind"] == "meas" and c["bitstrings"]] + [0])},
+            "via": {v: sum(1 for c in cases if c.get("via") == v) for v in ("dict", "json", "file", "fileobj", "path", "stringio", "binary", "pathlib")}}
